@@ -1,1 +1,2602 @@
-//! Kani harnesses compiled as a child module of rustzx-core/src/emulator/snapshot/sna.rs (cfg(kani) only).
+//! Kani-only child module of rustzx-core/src/emulator/snapshot/sna.rs (cfg(kani)).
+//! C13 (SNA save -> load round trip, saving is side-effect free), C14 (loading a well-formed
+//! SNA yields the described state), C15 (sna::load is total).
+//!
+//! Also home of the devices shared with szx.rs / scr.rs / emulator.rs harnesses:
+//! `SparseAsset` (sparse witness file, optionally fault injecting), `SparseRecorder`,
+//! the CPU observation helpers and the no-op stubs for the display.
+#![allow(dead_code)]
+use super::*;
+use crate::{
+    emulator::verif_hooks::{controller, cpu, mk_emulator},
+    error::Error,
+    host::FrameBuffer,
+    verif_hooks::{FbCtx, VHost},
+    zx::{
+        controller::{verif_hooks as ch, ZXController},
+        video::screen::ZXScreen,
+    },
+};
+use rustzx_z80::{Opcode, Prefix, Z80Bus, Z80};
+
+// ================================================================================================
+// stubs (display is not the subject of C13..C15)
+// ================================================================================================
+
+/// replaces `ZXController::refresh_memory_dependent_devices` (2 x 16384-iteration screen refresh)
+pub(crate) fn noop_refresh<H: Host>(_c: &mut ZXController<H>) {}
+/// replaces `ZXScreen::process_clocks` (beam-following render loop)
+pub(crate) fn noop_screen_clocks<FB: FrameBuffer>(_s: &mut ZXScreen<FB>, _clocks: usize) {}
+
+pub(crate) const CTX: FbCtx = FbCtx { wx: 0, wy: 0 };
+
+// ================================================================================================
+// sparse witness asset / recorder
+// ================================================================================================
+
+pub(crate) const NO_FAULT: u8 = 0xFF;
+pub(crate) const NO_WITNESS: usize = usize::MAX;
+pub(crate) const TAIL_OFF: usize = 49179;
+
+/// What the fault-injecting asset does at call number `at` (reads and seeks are counted together).
+#[derive(Clone, Copy)]
+pub(crate) struct Fault {
+    /// call index (0-based) that misbehaves; NO_FAULT = never
+    pub at: u8,
+    /// 0: Err(HostAssetImplFailed); 1: short read of `n` bytes (0 < n < requested) / seek Err;
+    /// 2: Ok(0) although data is left (premature EOF)
+    pub kind: u8,
+    pub n: usize,
+}
+
+pub(crate) const FAULT_NONE: Fault = Fault { at: NO_FAULT, kind: 0, n: 0 };
+
+pub(crate) fn any_fault(max_call: u8) -> Fault {
+    let at: u8 = kani::any();
+    let kind: u8 = kani::any();
+    let n: usize = kani::any();
+    kani::assume(at == NO_FAULT || at <= max_call);
+    kani::assume(kind <= 2);
+    Fault { at, kind, n }
+}
+
+/// A file of `size` bytes of which only the 27 header bytes, the 4 bytes at offset 49179 and the
+/// byte at `woff` are kept; every other byte is "don't care": a read leaves the destination
+/// untouched there.  Page transfers therefore cost O(1).
+pub(crate) struct SparseAsset {
+    pub size: usize,
+    pub pos: usize,
+    pub head: [u8; 27],
+    pub tail: [u8; 4],
+    pub woff: usize,
+    pub wval: u8,
+    pub fault: Fault,
+    pub calls: u8,
+    pub fault_hit: bool,
+    /// largest single read request seen (C15: memory in proportion)
+    pub max_req: usize,
+}
+
+impl SparseAsset {
+    pub fn new(size: usize, head: [u8; 27], tail: [u8; 4], woff: usize, wval: u8) -> Self {
+        SparseAsset {
+            size,
+            pos: 0,
+            head,
+            tail,
+            woff,
+            wval,
+            fault: FAULT_NONE,
+            calls: 0,
+            fault_hit: false,
+            max_req: 0,
+        }
+    }
+
+    fn tick(&mut self) -> bool {
+        let idx = self.calls;
+        self.calls = self.calls.saturating_add(1);
+        if self.fault.at != NO_FAULT && idx == self.fault.at {
+            self.fault_hit = true;
+            true
+        } else {
+            false
+        }
+    }
+
+    /// copy the kept bytes that fall into [pos, pos+n) to `buf`
+    fn deliver(&self, buf: &mut [u8], n: usize) {
+        let pos = self.pos;
+        // header bytes
+        if pos < 27 {
+            let mut i = pos;
+            while i < 27 && i - pos < n {
+                buf[i - pos] = self.head[i];
+                i += 1;
+            }
+        }
+        // 128K secondary header (only in files long enough to have one)
+        let mut k = if self.size > TAIL_OFF { 0 } else { 4 };
+        while k < 4 {
+            let off = TAIL_OFF + k;
+            if off >= pos && off - pos < n {
+                buf[off - pos] = self.tail[k];
+            }
+            k += 1;
+        }
+        if self.woff != NO_WITNESS && self.woff >= pos && self.woff - pos < n {
+            buf[self.woff - pos] = self.wval;
+        }
+    }
+}
+
+impl LoadableAsset for SparseAsset {
+    fn read(&mut self, buf: &mut [u8]) -> core::result::Result<usize, IoError> {
+        if buf.len() > self.max_req {
+            self.max_req = buf.len();
+        }
+        let faulty = self.tick();
+        if faulty && self.fault.kind == 0 {
+            return Err(IoError::HostAssetImplFailed);
+        }
+        if self.pos >= self.size || buf.is_empty() {
+            return Ok(0);
+        }
+        if faulty && self.fault.kind == 2 {
+            return Ok(0);
+        }
+        let mut n = buf.len().min(self.size - self.pos);
+        if faulty && self.fault.kind == 1 && self.fault.n > 0 && self.fault.n < n {
+            n = self.fault.n;
+        }
+        self.deliver(buf, n);
+        self.pos += n;
+        Ok(n)
+    }
+}
+
+impl SeekableAsset for SparseAsset {
+    fn seek(&mut self, pos: SeekFrom) -> core::result::Result<usize, IoError> {
+        if self.tick() {
+            return Err(IoError::HostAssetImplFailed);
+        }
+        let new_pos: i128 = match pos {
+            SeekFrom::Start(p) => p as i128,
+            SeekFrom::End(d) => self.size as i128 + d as i128,
+            SeekFrom::Current(d) => self.pos as i128 + d as i128,
+        };
+        if new_pos < 0 {
+            return Err(IoError::SeekBeforeStart);
+        }
+        if new_pos > usize::MAX as i128 {
+            return Err(IoError::HostAssetImplFailed);
+        }
+        self.pos = new_pos as usize;
+        Ok(self.pos)
+    }
+}
+
+impl LoadableAsset for &mut SparseAsset {
+    fn read(&mut self, buf: &mut [u8]) -> core::result::Result<usize, IoError> {
+        (**self).read(buf)
+    }
+}
+
+impl SeekableAsset for &mut SparseAsset {
+    fn seek(&mut self, pos: SeekFrom) -> core::result::Result<usize, IoError> {
+        (**self).seek(pos)
+    }
+}
+
+/// Recorder that keeps the same sparse set of bytes and the total length.
+pub(crate) struct SparseRecorder {
+    pub len: usize,
+    pub head: [u8; 27],
+    pub tail: [u8; 4],
+    pub woff: usize,
+    pub wval: u8,
+    pub wseen: bool,
+}
+
+impl SparseRecorder {
+    pub fn new(woff: usize) -> Self {
+        SparseRecorder { len: 0, head: [0; 27], tail: [0; 4], woff, wval: 0, wseen: false }
+    }
+}
+
+impl DataRecorder for &mut SparseRecorder {
+    fn write(&mut self, buf: &[u8]) -> core::result::Result<usize, IoError> {
+        let pos = self.len;
+        let n = buf.len();
+        if pos < 27 {
+            let mut i = pos;
+            while i < 27 && i - pos < n {
+                self.head[i] = buf[i - pos];
+                i += 1;
+            }
+        }
+        let mut k = 0;
+        while k < 4 {
+            let off = TAIL_OFF + k;
+            if off >= pos && off - pos < n {
+                self.tail[k] = buf[off - pos];
+            }
+            k += 1;
+        }
+        if self.woff != NO_WITNESS && self.woff >= pos && self.woff - pos < n {
+            self.wval = buf[self.woff - pos];
+            self.wseen = true;
+        }
+        self.len += n;
+        Ok(n)
+    }
+}
+
+// ================================================================================================
+// observing / preparing CPU control state through the public Z80 API
+// ================================================================================================
+
+/// 4-byte memory, no interrupts: enough to run one instruction on the real `Z80::emulate`.
+pub(crate) struct TinyBus {
+    pub mem: [u8; 4],
+}
+
+impl Z80Bus for TinyBus {
+    fn read_internal(&mut self, addr: u16) -> u8 {
+        self.mem[(addr & 3) as usize]
+    }
+    fn write_internal(&mut self, _addr: u16, _data: u8) {}
+    fn wait_mreq(&mut self, _addr: u16, _clk: usize) {}
+    fn wait_no_mreq(&mut self, _addr: u16, _clk: usize) {}
+    fn wait_internal(&mut self, _clk: usize) {}
+    fn read_io(&mut self, _port: u16) -> u8 {
+        0xFF
+    }
+    fn write_io(&mut self, _port: u16, _data: u8) {}
+    fn read_interrupt(&mut self) -> u8 {
+        0xFF
+    }
+    fn reti(&mut self) {}
+    fn halt(&mut self, _halted: bool) {}
+    fn int_active(&self) -> bool {
+        false
+    }
+    fn nmi_active(&self) -> bool {
+        false
+    }
+    fn pc_callback(&mut self, _addr: u16) {}
+    fn process_unknown_opcode(&mut self, _prefix: Prefix, _opcode: Opcode) {}
+}
+
+/// Brings the CPU into the "DD prefix fetched, opcode pending" state the real way: by executing
+/// the byte sequence DD DD (the frame loop may return between the two steps).
+pub(crate) fn seed_pending_dd_prefix(cpu: &mut Z80) {
+    let mut bus = TinyBus { mem: [0xDD, 0xDD, 0xDD, 0xDD] };
+    cpu.regs.set_pc(0);
+    cpu.emulate(&mut bus);
+}
+
+/// true iff the next instruction would be executed with a pending DD/FD prefix: runs `INC HL`
+/// (0x23) on the real CPU and looks whether HL or an index register moved.  Destroys PC/HL/R.
+pub(crate) fn has_pending_prefix(cpu: &mut Z80) -> bool {
+    let mut bus = TinyBus { mem: [0x23, 0x23, 0x23, 0x23] };
+    let hl = cpu.regs.get_hl();
+    cpu.emulate(&mut bus);
+    cpu.regs.get_hl() != hl.wrapping_add(1)
+}
+
+/// arbitrary "what the receiving machine was doing before": halted, EI pending, prefix pending,
+/// arbitrary registers
+pub(crate) fn dirty_cpu(cpu: &mut Z80) {
+    if kani::any() {
+        seed_pending_dd_prefix(cpu);
+    }
+    cpu.halted = kani::any();
+    cpu.skip_interrupt = kani::any();
+    set_abs_regs(cpu, &any_abs());
+    cpu.regs.set_pc(kani::any());
+    cpu.regs.set_iff1(kani::any());
+}
+
+// ================================================================================================
+// SNA format, written from the public format description (World of Spectrum / Sinclair FAQ):
+//   0 I | 1 HL' | 3 DE' | 5 BC' | 7 AF' | 9 HL | 11 DE | 13 BC | 15 IY | 17 IX | 19 bit2=IFF2
+//   20 R | 21 AF | 23 SP | 25 IM (0..2) | 26 border (0..7) | 27.. RAM 4000-FFFF (48K, PC on stack)
+//   128K: 27 bank 5 | 16411 bank 2 | 32795 bank paged at C000 | 49179 PC | 49181 port 7FFD |
+//         49182 TR-DOS flag | 49183.. remaining banks ascending (banks 2/5 are repeated in the
+//         third slot when paged: 131103 or 147487 bytes)
+// ================================================================================================
+
+pub(crate) const SPEC_SNA48_LEN: usize = 27 + 3 * 16384;
+pub(crate) const SPEC_SNA128_LEN: usize = 27 + 3 * 16384 + 4 + 5 * 16384;
+pub(crate) const SPEC_SNA128_LEN_DUP: usize = 27 + 3 * 16384 + 4 + 6 * 16384;
+
+/// The items the SNA format carries (plus the 128K extras).
+#[derive(Clone, Copy, PartialEq, Eq)]
+pub(crate) struct Abs {
+    pub i: u8,
+    pub hl_alt: u16,
+    pub de_alt: u16,
+    pub bc_alt: u16,
+    pub af_alt: u16,
+    pub hl: u16,
+    pub de: u16,
+    pub bc: u16,
+    pub iy: u16,
+    pub ix: u16,
+    pub iff2: bool,
+    pub r: u8,
+    pub af: u16,
+    pub sp: u16,
+    pub im: u8,
+    pub border: u8,
+}
+
+pub(crate) fn any_abs() -> Abs {
+    let a = Abs {
+        i: kani::any(),
+        hl_alt: kani::any(),
+        de_alt: kani::any(),
+        bc_alt: kani::any(),
+        af_alt: kani::any(),
+        hl: kani::any(),
+        de: kani::any(),
+        bc: kani::any(),
+        iy: kani::any(),
+        ix: kani::any(),
+        iff2: kani::any(),
+        r: kani::any(),
+        af: kani::any(),
+        sp: kani::any(),
+        im: kani::any(),
+        border: kani::any(),
+    };
+    kani::assume(a.im <= 2);
+    kani::assume(a.border <= 7);
+    a
+}
+
+/// spec encoder: abstract state -> 27 header bytes (`junk19` = the undefined bits of byte 19)
+pub(crate) fn spec_header(a: &Abs, junk19: u8) -> [u8; 27] {
+    let mut h = [0u8; 27];
+    h[0] = a.i;
+    h[1] = a.hl_alt as u8;
+    h[2] = (a.hl_alt >> 8) as u8;
+    h[3] = a.de_alt as u8;
+    h[4] = (a.de_alt >> 8) as u8;
+    h[5] = a.bc_alt as u8;
+    h[6] = (a.bc_alt >> 8) as u8;
+    h[7] = a.af_alt as u8;
+    h[8] = (a.af_alt >> 8) as u8;
+    h[9] = a.hl as u8;
+    h[10] = (a.hl >> 8) as u8;
+    h[11] = a.de as u8;
+    h[12] = (a.de >> 8) as u8;
+    h[13] = a.bc as u8;
+    h[14] = (a.bc >> 8) as u8;
+    h[15] = a.iy as u8;
+    h[16] = (a.iy >> 8) as u8;
+    h[17] = a.ix as u8;
+    h[18] = (a.ix >> 8) as u8;
+    h[19] = (junk19 & !0x04) | if a.iff2 { 0x04 } else { 0 };
+    h[20] = a.r;
+    h[21] = a.af as u8;
+    h[22] = (a.af >> 8) as u8;
+    h[23] = a.sp as u8;
+    h[24] = (a.sp >> 8) as u8;
+    h[25] = a.im;
+    h[26] = a.border;
+    h
+}
+
+/// file offset of RAM byte (`bank`, `off`) in a 48K SNA: banks in address order 4000, 8000, C000
+pub(crate) fn spec_off48(page_index: u8, off: usize) -> usize {
+    27 + page_index as usize * 16384 + off
+}
+
+/// file offset of RAM byte (`bank`, `off`) in a 128K SNA whose port-7FFD byte pages `paged` at C000
+pub(crate) fn spec_off128(bank: u8, paged: u8, off: usize) -> usize {
+    if bank == 5 {
+        27 + off
+    } else if bank == 2 {
+        27 + 16384 + off
+    } else if bank == paged {
+        27 + 32768 + off
+    } else {
+        // remaining banks ascending, skipping 5, 2 and the paged one
+        let mut rank = 0usize;
+        let mut b = 0u8;
+        while b < bank {
+            if b != 5 && b != 2 && b != paged {
+                rank += 1;
+            }
+            b += 1;
+        }
+        49183 + rank * 16384 + off
+    }
+}
+
+pub(crate) fn spec_len128(paged: u8) -> usize {
+    if paged == 5 || paged == 2 {
+        SPEC_SNA128_LEN_DUP
+    } else {
+        SPEC_SNA128_LEN
+    }
+}
+
+/// 128K memory map a 7FFD value describes: (bank at C000, ROM at 0000, screen bank, locked)
+pub(crate) fn spec_7ffd(v: u8) -> (u8, u8, u8, bool) {
+    (v & 7, (v >> 4) & 1, if v & 8 != 0 { 7 } else { 5 }, v & 0x20 != 0)
+}
+
+/// Reads the SNA-carried items back through the public register API.  The alternate set is read
+/// by swapping it in (EXX / EX AF,AF' are C01's business), never through the `_alt` getters.
+pub(crate) fn read_abs(e: &mut Emulator<VHost>) -> Abs {
+    let border: u8 = e.border_color().into();
+    let c = cpu(e);
+    c.regs.exx();
+    c.regs.swap_af_alt();
+    let (hl_alt, de_alt, bc_alt, af_alt) = (c.regs.get_hl(), c.regs.get_de(), c.regs.get_bc(), c.regs.get_af());
+    c.regs.exx();
+    c.regs.swap_af_alt();
+    Abs {
+        i: c.regs.get_i(),
+        hl_alt,
+        de_alt,
+        bc_alt,
+        af_alt,
+        hl: c.regs.get_hl(),
+        de: c.regs.get_de(),
+        bc: c.regs.get_bc(),
+        iy: c.regs.get_iy(),
+        ix: c.regs.get_ix(),
+        iff2: c.regs.get_iff2(),
+        r: c.regs.get_r(),
+        af: c.regs.get_af(),
+        sp: c.regs.get_sp(),
+        im: c.get_im().into(),
+        border,
+    }
+}
+
+pub(crate) fn set_abs_regs(c: &mut Z80, a: &Abs) {
+    c.regs.set_hl(a.hl_alt);
+    c.regs.set_de(a.de_alt);
+    c.regs.set_bc(a.bc_alt);
+    c.regs.set_af(a.af_alt);
+    c.regs.exx();
+    c.regs.swap_af_alt();
+    c.regs.set_hl(a.hl);
+    c.regs.set_de(a.de);
+    c.regs.set_bc(a.bc);
+    c.regs.set_af(a.af);
+    c.regs.set_i(a.i);
+    c.regs.set_r(a.r);
+    c.regs.set_iy(a.iy);
+    c.regs.set_ix(a.ix);
+    c.regs.set_sp(a.sp);
+    c.regs.set_iff2(a.iff2);
+    c.set_im(a.im);
+}
+
+/// puts an emulator into abstract state `a` (registers through the public setters, border through
+/// the controller's own setter)
+pub(crate) fn set_abs(e: &mut Emulator<VHost>, a: &Abs) {
+    set_abs_regs(cpu(e), a);
+    controller(e).set_border_color(0, ZXColor::from_bits(a.border));
+}
+
+/// field-wise comparison of two `Abs` with one role string per field
+macro_rules! assert_abs_eq {
+    ($x:expr, $y:expr, $p:literal) => {{
+        let (x, y): (&Abs, &Abs) = (&$x, &$y);
+        kani::assert(x.i == y.i, concat!($p, ".i"));
+        kani::assert(x.hl_alt == y.hl_alt, concat!($p, ".hl_alt"));
+        kani::assert(x.de_alt == y.de_alt, concat!($p, ".de_alt"));
+        kani::assert(x.bc_alt == y.bc_alt, concat!($p, ".bc_alt"));
+        kani::assert(x.af_alt == y.af_alt, concat!($p, ".af_alt"));
+        kani::assert(x.hl == y.hl, concat!($p, ".hl"));
+        kani::assert(x.de == y.de, concat!($p, ".de"));
+        kani::assert(x.bc == y.bc, concat!($p, ".bc"));
+        kani::assert(x.iy == y.iy, concat!($p, ".iy"));
+        kani::assert(x.ix == y.ix, concat!($p, ".ix"));
+        kani::assert(x.iff2 == y.iff2, concat!($p, ".iff2"));
+        kani::assert(x.r == y.r, concat!($p, ".r"));
+        kani::assert(x.af == y.af, concat!($p, ".af"));
+        kani::assert(x.sp == y.sp, concat!($p, ".sp"));
+        kani::assert(x.im == y.im, concat!($p, ".im"));
+        kani::assert(x.border == y.border, concat!($p, ".border"));
+    }};
+}
+pub(crate) use assert_abs_eq;
+
+// ================================================================================================
+// receivers and savers
+// ================================================================================================
+
+/// A receiving emulator "doing something else": arbitrary registers, border, 128K latch written
+/// through the real port handler.  CPU control state (halted / EI pending / prefix pending) and
+/// the paging lock are chosen by the caller because they are the subject of known findings.
+pub(crate) fn receiver(machine: ZXMachine, dirty_ctl: bool, latch0: u8) -> Emulator<VHost> {
+    let mut e = mk_emulator(machine, CTX);
+    set_abs(&mut e, &any_abs());
+    cpu(&mut e).regs.set_pc(kani::any());
+    cpu(&mut e).regs.set_iff1(kani::any());
+    if dirty_ctl {
+        if kani::any() {
+            seed_pending_dd_prefix(cpu(&mut e));
+        }
+        cpu(&mut e).halted = kani::any();
+        cpu(&mut e).skip_interrupt = kani::any();
+    }
+    if machine == ZXMachine::Sinclair128K {
+        controller(&mut e).write_7ffd(latch0);
+    }
+    e
+}
+
+fn ram_byte(e: &mut Emulator<VHost>, bank: u8, off: usize) -> u8 {
+    controller(e).memory.ram_page_data(bank)[off]
+}
+
+fn set_ram_byte(e: &mut Emulator<VHost>, bank: u8, off: usize, v: u8) {
+    controller(e).memory.ram_page_data_mut(bank)[off] = v;
+}
+
+/// CPU address of 48K RAM byte (page_index, off)
+fn addr48(page_index: u8, off: usize) -> u16 {
+    (0x4000 + page_index as usize * 0x4000 + off) as u16
+}
+
+// ================================================================================================
+// C14 / SNA 48K
+// ================================================================================================
+
+/// Load of a well-formed 48K SNA into an arbitrary 48K receiver; witness RAM byte (page, off).
+fn c14_sna48_body(page: u8, off: usize, sp: Option<u16>) {
+    let mut a = any_abs();
+    if let Some(sp) = sp {
+        a.sp = sp;
+    }
+    let wv: u8 = kani::any();
+    let wa = addr48(page, off);
+    let asset = SparseAsset::new(SPEC_SNA48_LEN, spec_header(&a, kani::any()), [0; 4], spec_off48(page, off), wv);
+    let mut e = receiver(ZXMachine::Sinclair48K, false, 0);
+    // the receiver's own byte at the witness address is arbitrary; the rest of its RAM is zero, and
+    // the sparse file leaves it alone: the file described here is "zero everywhere but (wa, wv)"
+    set_ram_byte(&mut e, page, off, kani::any());
+    let r = load(&mut e, asset);
+    kani::assert(r.is_ok(), "c14.sna48.accepted");
+    let got = read_abs(&mut e);
+    let mut want = a;
+    want.sp = a.sp.wrapping_add(2);
+    assert_abs_eq!(got, want, "c14.sna48");
+    kani::assert(cpu(&mut e).regs.get_iff1() == a.iff2, "c14.sna48.iff1_follows_iff2");
+    kani::assert(e.peek(wa) == wv, "c14.sna48.ram_witness");
+    // PC is the word the file holds at SP (format keeps PC on the stack); meaningful when both bytes are RAM
+    if a.sp >= 0x4000 && a.sp < 0xFFFF {
+        let lo = if a.sp == wa { wv } else { 0 };
+        let hi = if a.sp + 1 == wa { wv } else { 0 };
+        kani::assert(cpu(&mut e).regs.get_pc() == u16::from_le_bytes([lo, hi]), "c14.sna48.pc_from_stack");
+    }
+    kani::assert(!cpu(&mut e).halted && !cpu(&mut e).skip_interrupt, "c14.sna48.running_no_ei_pending");
+    kani::cover!(a.hl_alt != a.hl && a.border == 7 && a.im == 2 && a.iff2 && wv == 0x76, "header fields free");
+}
+
+// @harness
+// @prop C14
+// @tier quick
+// @timeout 900
+// @fn sna::load; LoadableAsset::read_exact; Z80::pop_pc_from_stack; Z80::set_im; ZXController::set_border_color; ZXMemory::ram_page_data_mut; Regs setters
+// @sym all 27 header bytes through the spec encoder (every register, IFF2, IM 0..2, border 0..7, undefined bits of byte 19), witness RAM value, receiver registers/border/PC/IFF1, receiver's byte at the witness address
+// @assert load returns Ok; every SNA item equals the encoded abstract state (SP advanced by the PC pop), IFF1 = IFF2, PC = the word at SP when SP,SP+1 are RAM, RAM witness = file byte, CPU neither halted nor EI-pending
+// @bound one load; 48K; SP fully symbolic (the PC pop reads RAM at a symbolic address); witness = first byte of page 0 (0x4000); other pages/offsets in sibling harnesses
+// @stub ZXController::refresh_memory_dependent_devices -> no-op; ZXScreen::process_clocks -> no-op (display is C08's subject)
+// @assume receiver CPU not halted / no EI pending / no prefix pending before the load (the complement is KF-C14-1, witnessed by c14_known_sna_ctl_leak)
+// @outside RAM offsets not in the concrete witness class (page transfers are whole-slice copies); display refresh
+// @replay solver-only
+#[kani::proof]
+#[kani::unwind(29)]
+#[kani::stub(ZXController::refresh_memory_dependent_devices, noop_refresh)]
+#[kani::stub(ZXScreen::process_clocks, noop_screen_clocks)]
+fn c14_sna48_load_p0_first() {
+    c14_sna48_body(0, 0, None);
+}
+
+// ================================================================================================
+// C14 / SNA 128K
+// ================================================================================================
+
+/// Load of a well-formed 128K SNA (port byte = `hi` bits | `paged`) into an arbitrary unlocked 128K
+/// receiver; witness RAM byte (bank, off).
+fn c14_sna128_body(bank: u8, paged: u8, off: usize, hi: u8, latch0: u8) {
+    let a = any_abs();
+    let wv: u8 = kani::any();
+    let pc: u16 = kani::any();
+    let latch = (hi & 0xF8) | paged;
+    let trdos: u8 = kani::any();
+    let [pcl, pch] = pc.to_le_bytes();
+    let asset = SparseAsset::new(
+        spec_len128(paged),
+        spec_header(&a, kani::any()),
+        [pcl, pch, latch, trdos],
+        spec_off128(bank, paged, off),
+        wv,
+    );
+    let mut e = receiver(ZXMachine::Sinclair128K, false, latch0);
+    set_ram_byte(&mut e, bank, off, kani::any());
+    let r = load(&mut e, asset);
+    kani::assert(r.is_ok(), "c14.sna128.accepted");
+    let got = read_abs(&mut e);
+    assert_abs_eq!(got, a, "c14.sna128");
+    kani::assert(cpu(&mut e).regs.get_iff1() == a.iff2, "c14.sna128.iff1_follows_iff2");
+    kani::assert(cpu(&mut e).regs.get_pc() == pc, "c14.sna128.pc");
+    let (p3, rom, scr, locked) = spec_7ffd(latch);
+    let c = controller(&mut e);
+    kani::assert(c.read_7ffd() == latch, "c14.sna128.latch");
+    kani::assert(ch::paging_enabled(c) == !locked, "c14.sna128.lock");
+    kani::assert(ch::screen_bank(c) == scr, "c14.sna128.screen_bank");
+    kani::assert(c.memory.get_page(0x0000) == crate::zx::memory::Page::Rom(rom), "c14.sna128.map_rom");
+    kani::assert(c.memory.get_page(0x4000) == crate::zx::memory::Page::Ram(5), "c14.sna128.map_4000");
+    kani::assert(c.memory.get_page(0x8000) == crate::zx::memory::Page::Ram(2), "c14.sna128.map_8000");
+    kani::assert(c.memory.get_page(0xC000) == crate::zx::memory::Page::Ram(p3), "c14.sna128.map_c000");
+    kani::assert(ram_byte(&mut e, bank, off) == wv, "c14.sna128.ram_witness");
+    if bank == paged {
+        kani::assert(e.peek((0xC000 + off) as u16) == wv, "c14.sna128.ram_witness_cpu_view");
+    }
+    kani::assert(!cpu(&mut e).halted && !cpu(&mut e).skip_interrupt, "c14.sna128.running_no_ei_pending");
+    kani::cover!(a.hl_alt != a.hl && pc == 0x8001 && a.im == 2 && a.iff2, "all header fields free");
+}
+
+// ================================================================================================
+// C13 / round trip
+// ================================================================================================
+
+#[derive(Clone, Copy, PartialEq, Eq)]
+enum SpMode {
+    /// SP = the given value; the witness byte is none of the two bytes below SP
+    At(u16),
+    /// SP = wa + 2: the witness file byte is the one that carries PC's low byte
+    PcLo,
+    /// SP = wa + 1: the witness file byte carries PC's high byte
+    PcHi,
+}
+
+/// `true` iff the two bytes below `sp` are RAM on a 48K machine (the statement's proviso)
+fn below_sp_is_ram48(sp: u16) -> bool {
+    sp.wrapping_sub(2) >= 0x4000 && sp.wrapping_sub(1) >= 0x4000
+}
+
+struct Saved48 {
+    a: Abs,
+    pc: u16,
+    wv: u8,
+    rec: SparseRecorder,
+}
+
+/// save half, 48K: arbitrary running machine -> sparse recorder; asserts "saving is side-effect free"
+fn c13_save48(page: u8, off: usize, mode: SpMode, check_mem: bool, in_proviso: bool) -> Saved48 {
+    let mut a = any_abs();
+    let pc: u16 = kani::any();
+    let iff1: bool = kani::any();
+    let wv: u8 = kani::any();
+    let wa = addr48(page, off);
+    match mode {
+        SpMode::At(sp) => a.sp = sp,
+        SpMode::PcLo => a.sp = wa.wrapping_add(2),
+        SpMode::PcHi => a.sp = wa.wrapping_add(1),
+    }
+    if in_proviso {
+        kani::assume(below_sp_is_ram48(a.sp));
+        if let SpMode::At(_) = mode {
+            kani::assume(wa != a.sp.wrapping_sub(1) && wa != a.sp.wrapping_sub(2));
+        }
+    }
+    kani::assume(a.hl_alt == a.hl);
+    let mut s = mk_emulator(ZXMachine::Sinclair48K, CTX);
+    set_abs(&mut s, &a);
+    cpu(&mut s).regs.set_pc(pc);
+    cpu(&mut s).regs.set_iff1(iff1);
+    set_ram_byte(&mut s, page, off, wv);
+    let mut rec = SparseRecorder::new(spec_off48(page, off));
+    let r = save(&mut s, &mut rec);
+    kani::assert(r.is_ok(), "c13.save48.ok");
+    kani::assert(rec.len == SPEC_SNA48_LEN, "c13.save48.file_length");
+    let after = read_abs(&mut s);
+    assert_abs_eq!(after, a, "c13.save48.saver_unchanged");
+    kani::assert(cpu(&mut s).regs.get_pc() == pc, "c13.save48.saver_unchanged.pc");
+    kani::assert(cpu(&mut s).regs.get_iff1() == iff1, "c13.save48.saver_unchanged.iff1");
+    if check_mem {
+        kani::assert(s.peek(wa) == wv, "c13.save48.saver_unchanged.ram");
+    }
+    Saved48 { a, pc, wv, rec }
+}
+
+fn c13_rt48_body(page: u8, off: usize, mode: SpMode) {
+    let far = matches!(mode, SpMode::At(_));
+    let sv = c13_save48(page, off, mode, far, true);
+    let (a, pc, wv) = (sv.a, sv.pc, sv.wv);
+    let wa = addr48(page, off);
+    let asset = SparseAsset::new(sv.rec.len, sv.rec.head, sv.rec.tail, sv.rec.woff, sv.rec.wval);
+    let mut b = receiver(ZXMachine::Sinclair48K, false, 0);
+    set_ram_byte(&mut b, page, off, kani::any());
+    let r = load(&mut b, asset);
+    kani::assert(r.is_ok(), "c13.rt48.load_ok");
+    let got = read_abs(&mut b);
+    assert_abs_eq!(got, a, "c13.rt48");
+    match mode {
+        SpMode::At(_) => kani::assert(b.peek(wa) == wv, "c13.rt48.ram_witness"),
+        SpMode::PcLo => kani::assert(cpu(&mut b).regs.get_pc() as u8 == pc as u8, "c13.rt48.pc_low"),
+        SpMode::PcHi => kani::assert((cpu(&mut b).regs.get_pc() >> 8) as u8 == (pc >> 8) as u8, "c13.rt48.pc_high"),
+    }
+    kani::assert(!cpu(&mut b).halted && !cpu(&mut b).skip_interrupt, "c13.rt48.running");
+    kani::cover!(a.im == 2 && a.iff2 && a.border == 5 && pc == 0xABCD && a.af_alt != a.af, "saver state free");
+}
+
+/// 128K round trip with concrete 7FFD values: `hi`|`paged` in the saver, `latch0` in the receiver.
+fn c13_rt128_body(bank: u8, paged: u8, off: usize, hi: u8, latch0: u8) {
+    let a = any_abs();
+    let pc: u16 = kani::any();
+    let iff1: bool = kani::any();
+    let wv: u8 = kani::any();
+    let latch = (hi & 0xF8) | paged;
+    kani::assume(a.hl_alt == a.hl);
+    let mut s = mk_emulator(ZXMachine::Sinclair128K, CTX);
+    set_abs(&mut s, &a);
+    cpu(&mut s).regs.set_pc(pc);
+    cpu(&mut s).regs.set_iff1(iff1);
+    controller(&mut s).write_7ffd(latch);
+    set_ram_byte(&mut s, bank, off, wv);
+    let mut rec = SparseRecorder::new(spec_off128(bank, paged, off));
+    let r = save(&mut s, &mut rec);
+    kani::assert(r.is_ok(), "c13.save128.ok");
+    kani::assert(rec.len == spec_len128(paged), "c13.save128.file_length");
+    let after = read_abs(&mut s);
+    assert_abs_eq!(after, a, "c13.save128.saver_unchanged");
+    kani::assert(cpu(&mut s).regs.get_pc() == pc, "c13.save128.saver_unchanged.pc");
+    kani::assert(cpu(&mut s).regs.get_iff1() == iff1, "c13.save128.saver_unchanged.iff1");
+    kani::assert(ram_byte(&mut s, bank, off) == wv, "c13.save128.saver_unchanged.ram");
+    kani::assert(controller(&mut s).read_7ffd() == latch, "c13.save128.saver_unchanged.latch");
+    kani::assert(ch::paging_enabled(controller(&mut s)) == (latch & 0x20 == 0), "c13.save128.saver_unchanged.lock");
+
+    let asset = SparseAsset::new(rec.len, rec.head, rec.tail, rec.woff, rec.wval);
+    let mut b = receiver(ZXMachine::Sinclair128K, false, latch0);
+    set_ram_byte(&mut b, bank, off, kani::any());
+    let r = load(&mut b, asset);
+    kani::assert(r.is_ok(), "c13.rt128.load_ok");
+    let got = read_abs(&mut b);
+    assert_abs_eq!(got, a, "c13.rt128");
+    kani::assert(cpu(&mut b).regs.get_pc() == pc, "c13.rt128.pc");
+    let cb = controller(&mut b);
+    kani::assert(cb.read_7ffd() == latch, "c13.rt128.latch");
+    kani::assert(ch::paging_enabled(cb) == (latch & 0x20 == 0), "c13.rt128.lock");
+    kani::assert(cb.memory.get_page(0xC000) == crate::zx::memory::Page::Ram(paged), "c13.rt128.map_c000");
+    kani::assert(cb.memory.get_page(0x0000) == crate::zx::memory::Page::Rom((latch >> 4) & 1), "c13.rt128.map_rom");
+    kani::assert(ch::screen_bank(cb) == if latch & 8 != 0 { 7 } else { 5 }, "c13.rt128.screen_bank");
+    kani::assert(ram_byte(&mut b, bank, off) == wv, "c13.rt128.ram_witness");
+    if bank == paged {
+        kani::assert(b.peek((0xC000 + off) as u16) == wv, "c13.rt128.ram_witness_cpu_view");
+    }
+    kani::assert(!cpu(&mut b).halted && !cpu(&mut b).skip_interrupt, "c13.rt128.running");
+}
+
+// @harness
+// @prop C13
+// @tier quick
+// @timeout 600
+// @fn sna::save; sna::load; ScopedSnapshotState::enter/drop; Z80::push_pc_to_stack; Z80::pop_pc_from_stack; Regs alt getters; ZXController::write_7ffd; ZXController::read_7ffd; ZXMemory::ram_page_data(_mut); DataRecorder::write_all; LoadableAsset::read_exact
+// @sym saver: every register incl. alternates, I, R, IX, IY, IFF1, IFF2, IM, border, PC, witness RAM value; receiver: all registers, border, PC, IFF1, its own byte at the witness address
+// @assert save Ok, file length 49179; saver registers/PC/IFF1 (and, when the witness is not under SP, its RAM byte) unchanged; after load every SNA item equals the saver's, RAM witness equal / PC byte carried by the witness equal; receiver running
+// @bound 1 save + 1 load, 48K; witness page 0 offset 0; SP At(0x8000) (concrete class), everything else symbolic
+// @assume HL' == HL in the saver (complement is KF-C13-1); receiver CPU not halted / EI-pending / mid-prefix and (128K) paging not locked before the load (complements KF-C13-4, KF-C13-5); the two bytes below SP are RAM (statement's 48K proviso)
+// @outside RAM offsets outside the witness class {0,1,0x1AFF,0x1B00,0x3FFE,0x3FFF} (whole-page slice copies); symbolic SP (a symbolic-address store into the 48K Vec followed by the recorder reads did not finish in 900 s); display refresh
+// @stub ZXController::refresh_memory_dependent_devices -> no-op; ZXScreen::process_clocks -> no-op (display is C08's subject)
+// @replay solver-only
+#[kani::proof]
+#[kani::unwind(29)]
+#[kani::stub(ZXController::refresh_memory_dependent_devices, noop_refresh)]
+#[kani::stub(ZXScreen::process_clocks, noop_screen_clocks)]
+fn c13_rt48_p0_first_sp8000() {
+    c13_rt48_body(0, 0, SpMode::At(0x8000));
+}
+
+// @harness
+// @prop C13
+// @tier quick
+// @timeout 600
+// @fn sna::save; sna::load; ScopedSnapshotState::enter/drop; Z80::push_pc_to_stack; Z80::pop_pc_from_stack; Regs alt getters; ZXController::write_7ffd; ZXController::read_7ffd; ZXMemory::ram_page_data(_mut); DataRecorder::write_all; LoadableAsset::read_exact
+// @sym saver: every register incl. alternates, I, R, IX, IY, IFF1, IFF2, IM, border, PC, witness RAM value; receiver: all registers, border, PC, IFF1, its own byte at the witness address
+// @assert save Ok, file length 49179; saver registers/PC/IFF1 (and, when the witness is not under SP, its RAM byte) unchanged; after load every SNA item equals the saver's, RAM witness equal / PC byte carried by the witness equal; receiver running
+// @bound 1 save + 1 load, 48K; witness page 1 offset 0x3FFF; SP At(0xFFFF) (concrete class), everything else symbolic
+// @assume HL' == HL in the saver (complement is KF-C13-1); receiver CPU not halted / EI-pending / mid-prefix and (128K) paging not locked before the load (complements KF-C13-4, KF-C13-5); the two bytes below SP are RAM (statement's 48K proviso)
+// @outside RAM offsets outside the witness class {0,1,0x1AFF,0x1B00,0x3FFE,0x3FFF} (whole-page slice copies); symbolic SP (a symbolic-address store into the 48K Vec followed by the recorder reads did not finish in 900 s); display refresh
+// @stub ZXController::refresh_memory_dependent_devices -> no-op; ZXScreen::process_clocks -> no-op (display is C08's subject)
+// @replay solver-only
+#[kani::proof]
+#[kani::unwind(29)]
+#[kani::stub(ZXController::refresh_memory_dependent_devices, noop_refresh)]
+#[kani::stub(ZXScreen::process_clocks, noop_screen_clocks)]
+fn c13_rt48_p1_last_spffff() {
+    c13_rt48_body(1, 0x3FFF, SpMode::At(0xFFFF));
+}
+
+// @harness
+// @prop C13
+// @tier quick
+// @timeout 600
+// @fn sna::save; sna::load; ScopedSnapshotState::enter/drop; Z80::push_pc_to_stack; Z80::pop_pc_from_stack; Regs alt getters; ZXController::write_7ffd; ZXController::read_7ffd; ZXMemory::ram_page_data(_mut); DataRecorder::write_all; LoadableAsset::read_exact
+// @sym saver: every register incl. alternates, I, R, IX, IY, IFF1, IFF2, IM, border, PC, witness RAM value; receiver: all registers, border, PC, IFF1, its own byte at the witness address
+// @assert save Ok, file length 49179; saver registers/PC/IFF1 (and, when the witness is not under SP, its RAM byte) unchanged; after load every SNA item equals the saver's, RAM witness equal / PC byte carried by the witness equal; receiver running
+// @bound 1 save + 1 load, 48K; witness page 2 offset 0x1B00; SP At(0x0000) (concrete class), everything else symbolic
+// @assume HL' == HL in the saver (complement is KF-C13-1); receiver CPU not halted / EI-pending / mid-prefix and (128K) paging not locked before the load (complements KF-C13-4, KF-C13-5); the two bytes below SP are RAM (statement's 48K proviso)
+// @outside RAM offsets outside the witness class {0,1,0x1AFF,0x1B00,0x3FFE,0x3FFF} (whole-page slice copies); symbolic SP (a symbolic-address store into the 48K Vec followed by the recorder reads did not finish in 900 s); display refresh
+// @stub ZXController::refresh_memory_dependent_devices -> no-op; ZXScreen::process_clocks -> no-op (display is C08's subject)
+// @replay solver-only
+#[kani::proof]
+#[kani::unwind(29)]
+#[kani::stub(ZXController::refresh_memory_dependent_devices, noop_refresh)]
+#[kani::stub(ZXScreen::process_clocks, noop_screen_clocks)]
+fn c13_rt48_p2_attr_sp0000() {
+    c13_rt48_body(2, 0x1B00, SpMode::At(0x0000));
+}
+
+// @harness
+// @prop C13
+// @tier quick
+// @timeout 600
+// @fn sna::save; sna::load; ScopedSnapshotState::enter/drop; Z80::push_pc_to_stack; Z80::pop_pc_from_stack; Regs alt getters; ZXController::write_7ffd; ZXController::read_7ffd; ZXMemory::ram_page_data(_mut); DataRecorder::write_all; LoadableAsset::read_exact
+// @sym saver: every register incl. alternates, I, R, IX, IY, IFF1, IFF2, IM, border, PC, witness RAM value; receiver: all registers, border, PC, IFF1, its own byte at the witness address
+// @assert save Ok, file length 49179; saver registers/PC/IFF1 (and, when the witness is not under SP, its RAM byte) unchanged; after load every SNA item equals the saver's, RAM witness equal / PC byte carried by the witness equal; receiver running
+// @bound 1 save + 1 load, 48K; witness page 0 offset 0x1AFF; SP PcLo (concrete class), everything else symbolic
+// @assume HL' == HL in the saver (complement is KF-C13-1); receiver CPU not halted / EI-pending / mid-prefix and (128K) paging not locked before the load (complements KF-C13-4, KF-C13-5); the two bytes below SP are RAM (statement's 48K proviso)
+// @outside RAM offsets outside the witness class {0,1,0x1AFF,0x1B00,0x3FFE,0x3FFF} (whole-page slice copies); symbolic SP (a symbolic-address store into the 48K Vec followed by the recorder reads did not finish in 900 s); display refresh
+// @stub ZXController::refresh_memory_dependent_devices -> no-op; ZXScreen::process_clocks -> no-op (display is C08's subject)
+// @replay solver-only
+#[kani::proof]
+#[kani::unwind(29)]
+#[kani::stub(ZXController::refresh_memory_dependent_devices, noop_refresh)]
+#[kani::stub(ZXScreen::process_clocks, noop_screen_clocks)]
+fn c13_rt48_pc_low_p0() {
+    c13_rt48_body(0, 0x1AFF, SpMode::PcLo);
+}
+
+// @harness
+// @prop C13
+// @tier quick
+// @timeout 600
+// @fn sna::save; sna::load; ScopedSnapshotState::enter/drop; Z80::push_pc_to_stack; Z80::pop_pc_from_stack; Regs alt getters; ZXController::write_7ffd; ZXController::read_7ffd; ZXMemory::ram_page_data(_mut); DataRecorder::write_all; LoadableAsset::read_exact
+// @sym saver: every register incl. alternates, I, R, IX, IY, IFF1, IFF2, IM, border, PC, witness RAM value; receiver: all registers, border, PC, IFF1, its own byte at the witness address
+// @assert save Ok, file length 49179; saver registers/PC/IFF1 (and, when the witness is not under SP, its RAM byte) unchanged; after load every SNA item equals the saver's, RAM witness equal / PC byte carried by the witness equal; receiver running
+// @bound 1 save + 1 load, 48K; witness page 0 offset 0x3FFF; SP PcLo (concrete class), everything else symbolic
+// @assume HL' == HL in the saver (complement is KF-C13-1); receiver CPU not halted / EI-pending / mid-prefix and (128K) paging not locked before the load (complements KF-C13-4, KF-C13-5); the two bytes below SP are RAM (statement's 48K proviso)
+// @outside RAM offsets outside the witness class {0,1,0x1AFF,0x1B00,0x3FFE,0x3FFF} (whole-page slice copies); symbolic SP (a symbolic-address store into the 48K Vec followed by the recorder reads did not finish in 900 s); display refresh
+// @stub ZXController::refresh_memory_dependent_devices -> no-op; ZXScreen::process_clocks -> no-op (display is C08's subject)
+// @replay solver-only
+#[kani::proof]
+#[kani::unwind(29)]
+#[kani::stub(ZXController::refresh_memory_dependent_devices, noop_refresh)]
+#[kani::stub(ZXScreen::process_clocks, noop_screen_clocks)]
+fn c13_rt48_pc_low_page_cross() {
+    c13_rt48_body(0, 0x3FFF, SpMode::PcLo);
+}
+
+// @harness
+// @prop C13
+// @tier quick
+// @timeout 600
+// @fn sna::save; sna::load; ScopedSnapshotState::enter/drop; Z80::push_pc_to_stack; Z80::pop_pc_from_stack; Regs alt getters; ZXController::write_7ffd; ZXController::read_7ffd; ZXMemory::ram_page_data(_mut); DataRecorder::write_all; LoadableAsset::read_exact
+// @sym saver: every register incl. alternates, I, R, IX, IY, IFF1, IFF2, IM, border, PC, witness RAM value; receiver: all registers, border, PC, IFF1, its own byte at the witness address
+// @assert save Ok, file length 49179; saver registers/PC/IFF1 (and, when the witness is not under SP, its RAM byte) unchanged; after load every SNA item equals the saver's, RAM witness equal / PC byte carried by the witness equal; receiver running
+// @bound 1 save + 1 load, 48K; witness page 2 offset 0x3FFF; SP PcHi (concrete class), everything else symbolic
+// @assume HL' == HL in the saver (complement is KF-C13-1); receiver CPU not halted / EI-pending / mid-prefix and (128K) paging not locked before the load (complements KF-C13-4, KF-C13-5); the two bytes below SP are RAM (statement's 48K proviso)
+// @outside RAM offsets outside the witness class {0,1,0x1AFF,0x1B00,0x3FFE,0x3FFF} (whole-page slice copies); symbolic SP (a symbolic-address store into the 48K Vec followed by the recorder reads did not finish in 900 s); display refresh
+// @stub ZXController::refresh_memory_dependent_devices -> no-op; ZXScreen::process_clocks -> no-op (display is C08's subject)
+// @replay solver-only
+#[kani::proof]
+#[kani::unwind(29)]
+#[kani::stub(ZXController::refresh_memory_dependent_devices, noop_refresh)]
+#[kani::stub(ZXScreen::process_clocks, noop_screen_clocks)]
+fn c13_rt48_pc_high_wraps_ffff() {
+    c13_rt48_body(2, 0x3FFF, SpMode::PcHi);
+}
+
+// @harness
+// @prop C13
+// @tier thorough
+// @timeout 600
+// @fn sna::save; sna::load; ScopedSnapshotState::enter/drop; Z80::push_pc_to_stack; Z80::pop_pc_from_stack; Regs alt getters; ZXController::write_7ffd; ZXController::read_7ffd; ZXMemory::ram_page_data(_mut); DataRecorder::write_all; LoadableAsset::read_exact
+// @sym saver: every register incl. alternates, I, R, IX, IY, IFF1, IFF2, IM, border, PC, witness RAM value; receiver: all registers, border, PC, IFF1, its own byte at the witness address
+// @assert save Ok, file length 49179; saver registers/PC/IFF1 (and, when the witness is not under SP, its RAM byte) unchanged; after load every SNA item equals the saver's, RAM witness equal / PC byte carried by the witness equal; receiver running
+// @bound 1 save + 1 load, 48K; witness page 0 offset 1; SP At(0x4004) (concrete class), everything else symbolic
+// @assume HL' == HL in the saver (complement is KF-C13-1); receiver CPU not halted / EI-pending / mid-prefix and (128K) paging not locked before the load (complements KF-C13-4, KF-C13-5); the two bytes below SP are RAM (statement's 48K proviso)
+// @outside RAM offsets outside the witness class {0,1,0x1AFF,0x1B00,0x3FFE,0x3FFF} (whole-page slice copies); symbolic SP (a symbolic-address store into the 48K Vec followed by the recorder reads did not finish in 900 s); display refresh
+// @stub ZXController::refresh_memory_dependent_devices -> no-op; ZXScreen::process_clocks -> no-op (display is C08's subject)
+// @replay solver-only
+#[kani::proof]
+#[kani::unwind(29)]
+#[kani::stub(ZXController::refresh_memory_dependent_devices, noop_refresh)]
+#[kani::stub(ZXScreen::process_clocks, noop_screen_clocks)]
+fn c13_rt48_p0_second_sp4004() {
+    c13_rt48_body(0, 1, SpMode::At(0x4004));
+}
+
+// @harness
+// @prop C13
+// @tier thorough
+// @timeout 600
+// @fn sna::save; sna::load; ScopedSnapshotState::enter/drop; Z80::push_pc_to_stack; Z80::pop_pc_from_stack; Regs alt getters; ZXController::write_7ffd; ZXController::read_7ffd; ZXMemory::ram_page_data(_mut); DataRecorder::write_all; LoadableAsset::read_exact
+// @sym saver: every register incl. alternates, I, R, IX, IY, IFF1, IFF2, IM, border, PC, witness RAM value; receiver: all registers, border, PC, IFF1, its own byte at the witness address
+// @assert save Ok, file length 49179; saver registers/PC/IFF1 (and, when the witness is not under SP, its RAM byte) unchanged; after load every SNA item equals the saver's, RAM witness equal / PC byte carried by the witness equal; receiver running
+// @bound 1 save + 1 load, 48K; witness page 1 offset 0; SP At(0xC000) (concrete class), everything else symbolic
+// @assume HL' == HL in the saver (complement is KF-C13-1); receiver CPU not halted / EI-pending / mid-prefix and (128K) paging not locked before the load (complements KF-C13-4, KF-C13-5); the two bytes below SP are RAM (statement's 48K proviso)
+// @outside RAM offsets outside the witness class {0,1,0x1AFF,0x1B00,0x3FFE,0x3FFF} (whole-page slice copies); symbolic SP (a symbolic-address store into the 48K Vec followed by the recorder reads did not finish in 900 s); display refresh
+// @stub ZXController::refresh_memory_dependent_devices -> no-op; ZXScreen::process_clocks -> no-op (display is C08's subject)
+// @replay solver-only
+#[kani::proof]
+#[kani::unwind(29)]
+#[kani::stub(ZXController::refresh_memory_dependent_devices, noop_refresh)]
+#[kani::stub(ZXScreen::process_clocks, noop_screen_clocks)]
+fn c13_rt48_p1_first_spc000() {
+    c13_rt48_body(1, 0, SpMode::At(0xC000));
+}
+
+// @harness
+// @prop C13
+// @tier thorough
+// @timeout 600
+// @fn sna::save; sna::load; ScopedSnapshotState::enter/drop; Z80::push_pc_to_stack; Z80::pop_pc_from_stack; Regs alt getters; ZXController::write_7ffd; ZXController::read_7ffd; ZXMemory::ram_page_data(_mut); DataRecorder::write_all; LoadableAsset::read_exact
+// @sym saver: every register incl. alternates, I, R, IX, IY, IFF1, IFF2, IM, border, PC, witness RAM value; receiver: all registers, border, PC, IFF1, its own byte at the witness address
+// @assert save Ok, file length 49179; saver registers/PC/IFF1 (and, when the witness is not under SP, its RAM byte) unchanged; after load every SNA item equals the saver's, RAM witness equal / PC byte carried by the witness equal; receiver running
+// @bound 1 save + 1 load, 48K; witness page 2 offset 0x3FFF; SP At(0x8001) (concrete class), everything else symbolic
+// @assume HL' == HL in the saver (complement is KF-C13-1); receiver CPU not halted / EI-pending / mid-prefix and (128K) paging not locked before the load (complements KF-C13-4, KF-C13-5); the two bytes below SP are RAM (statement's 48K proviso)
+// @outside RAM offsets outside the witness class {0,1,0x1AFF,0x1B00,0x3FFE,0x3FFF} (whole-page slice copies); symbolic SP (a symbolic-address store into the 48K Vec followed by the recorder reads did not finish in 900 s); display refresh
+// @stub ZXController::refresh_memory_dependent_devices -> no-op; ZXScreen::process_clocks -> no-op (display is C08's subject)
+// @replay solver-only
+#[kani::proof]
+#[kani::unwind(29)]
+#[kani::stub(ZXController::refresh_memory_dependent_devices, noop_refresh)]
+#[kani::stub(ZXScreen::process_clocks, noop_screen_clocks)]
+fn c13_rt48_p2_last_sp8001() {
+    c13_rt48_body(2, 0x3FFF, SpMode::At(0x8001));
+}
+
+// @harness
+// @prop C13
+// @tier thorough
+// @timeout 600
+// @fn sna::save; sna::load; ScopedSnapshotState::enter/drop; Z80::push_pc_to_stack; Z80::pop_pc_from_stack; Regs alt getters; ZXController::write_7ffd; ZXController::read_7ffd; ZXMemory::ram_page_data(_mut); DataRecorder::write_all; LoadableAsset::read_exact
+// @sym saver: every register incl. alternates, I, R, IX, IY, IFF1, IFF2, IM, border, PC, witness RAM value; receiver: all registers, border, PC, IFF1, its own byte at the witness address
+// @assert save Ok, file length 49179; saver registers/PC/IFF1 (and, when the witness is not under SP, its RAM byte) unchanged; after load every SNA item equals the saver's, RAM witness equal / PC byte carried by the witness equal; receiver running
+// @bound 1 save + 1 load, 48K; witness page 2 offset 0; SP At(0x4002) (concrete class), everything else symbolic
+// @assume HL' == HL in the saver (complement is KF-C13-1); receiver CPU not halted / EI-pending / mid-prefix and (128K) paging not locked before the load (complements KF-C13-4, KF-C13-5); the two bytes below SP are RAM (statement's 48K proviso)
+// @outside RAM offsets outside the witness class {0,1,0x1AFF,0x1B00,0x3FFE,0x3FFF} (whole-page slice copies); symbolic SP (a symbolic-address store into the 48K Vec followed by the recorder reads did not finish in 900 s); display refresh
+// @stub ZXController::refresh_memory_dependent_devices -> no-op; ZXScreen::process_clocks -> no-op (display is C08's subject)
+// @replay solver-only
+#[kani::proof]
+#[kani::unwind(29)]
+#[kani::stub(ZXController::refresh_memory_dependent_devices, noop_refresh)]
+#[kani::stub(ZXScreen::process_clocks, noop_screen_clocks)]
+fn c13_rt48_p2_first_sp4002() {
+    c13_rt48_body(2, 0, SpMode::At(0x4002));
+}
+
+// @harness
+// @prop C13
+// @tier thorough
+// @timeout 600
+// @fn sna::save; sna::load; ScopedSnapshotState::enter/drop; Z80::push_pc_to_stack; Z80::pop_pc_from_stack; Regs alt getters; ZXController::write_7ffd; ZXController::read_7ffd; ZXMemory::ram_page_data(_mut); DataRecorder::write_all; LoadableAsset::read_exact
+// @sym saver: every register incl. alternates, I, R, IX, IY, IFF1, IFF2, IM, border, PC, witness RAM value; receiver: all registers, border, PC, IFF1, its own byte at the witness address
+// @assert save Ok, file length 49179; saver registers/PC/IFF1 (and, when the witness is not under SP, its RAM byte) unchanged; after load every SNA item equals the saver's, RAM witness equal / PC byte carried by the witness equal; receiver running
+// @bound 1 save + 1 load, 48K; witness page 1 offset 0x3FFE; SP At(0x0000) (concrete class), everything else symbolic
+// @assume HL' == HL in the saver (complement is KF-C13-1); receiver CPU not halted / EI-pending / mid-prefix and (128K) paging not locked before the load (complements KF-C13-4, KF-C13-5); the two bytes below SP are RAM (statement's 48K proviso)
+// @outside RAM offsets outside the witness class {0,1,0x1AFF,0x1B00,0x3FFE,0x3FFF} (whole-page slice copies); symbolic SP (a symbolic-address store into the 48K Vec followed by the recorder reads did not finish in 900 s); display refresh
+// @stub ZXController::refresh_memory_dependent_devices -> no-op; ZXScreen::process_clocks -> no-op (display is C08's subject)
+// @replay solver-only
+#[kani::proof]
+#[kani::unwind(29)]
+#[kani::stub(ZXController::refresh_memory_dependent_devices, noop_refresh)]
+#[kani::stub(ZXScreen::process_clocks, noop_screen_clocks)]
+fn c13_rt48_p1_3ffe_sp0000() {
+    c13_rt48_body(1, 0x3FFE, SpMode::At(0x0000));
+}
+
+// @harness
+// @prop C13
+// @tier thorough
+// @timeout 600
+// @fn sna::save; sna::load; ScopedSnapshotState::enter/drop; Z80::push_pc_to_stack; Z80::pop_pc_from_stack; Regs alt getters; ZXController::write_7ffd; ZXController::read_7ffd; ZXMemory::ram_page_data(_mut); DataRecorder::write_all; LoadableAsset::read_exact
+// @sym saver: every register incl. alternates, I, R, IX, IY, IFF1, IFF2, IM, border, PC, witness RAM value; receiver: all registers, border, PC, IFF1, its own byte at the witness address
+// @assert save Ok, file length 49179; saver registers/PC/IFF1 (and, when the witness is not under SP, its RAM byte) unchanged; after load every SNA item equals the saver's, RAM witness equal / PC byte carried by the witness equal; receiver running
+// @bound 1 save + 1 load, 48K; witness page 1 offset 0x1B00; SP PcHi (concrete class), everything else symbolic
+// @assume HL' == HL in the saver (complement is KF-C13-1); receiver CPU not halted / EI-pending / mid-prefix and (128K) paging not locked before the load (complements KF-C13-4, KF-C13-5); the two bytes below SP are RAM (statement's 48K proviso)
+// @outside RAM offsets outside the witness class {0,1,0x1AFF,0x1B00,0x3FFE,0x3FFF} (whole-page slice copies); symbolic SP (a symbolic-address store into the 48K Vec followed by the recorder reads did not finish in 900 s); display refresh
+// @stub ZXController::refresh_memory_dependent_devices -> no-op; ZXScreen::process_clocks -> no-op (display is C08's subject)
+// @replay solver-only
+#[kani::proof]
+#[kani::unwind(29)]
+#[kani::stub(ZXController::refresh_memory_dependent_devices, noop_refresh)]
+#[kani::stub(ZXScreen::process_clocks, noop_screen_clocks)]
+fn c13_rt48_pc_high_p1() {
+    c13_rt48_body(1, 0x1B00, SpMode::PcHi);
+}
+
+// @harness
+// @prop C13
+// @tier thorough
+// @timeout 600
+// @fn sna::save; sna::load; ScopedSnapshotState::enter/drop; Z80::push_pc_to_stack; Z80::pop_pc_from_stack; Regs alt getters; ZXController::write_7ffd; ZXController::read_7ffd; ZXMemory::ram_page_data(_mut); DataRecorder::write_all; LoadableAsset::read_exact
+// @sym saver: every register incl. alternates, I, R, IX, IY, IFF1, IFF2, IM, border, PC, witness RAM value; receiver: all registers, border, PC, IFF1, its own byte at the witness address
+// @assert save Ok, file length 49179; saver registers/PC/IFF1 (and, when the witness is not under SP, its RAM byte) unchanged; after load every SNA item equals the saver's, RAM witness equal / PC byte carried by the witness equal; receiver running
+// @bound 1 save + 1 load, 48K; witness page 0 offset 0; SP PcLo (concrete class), everything else symbolic
+// @assume HL' == HL in the saver (complement is KF-C13-1); receiver CPU not halted / EI-pending / mid-prefix and (128K) paging not locked before the load (complements KF-C13-4, KF-C13-5); the two bytes below SP are RAM (statement's 48K proviso)
+// @outside RAM offsets outside the witness class {0,1,0x1AFF,0x1B00,0x3FFE,0x3FFF} (whole-page slice copies); symbolic SP (a symbolic-address store into the 48K Vec followed by the recorder reads did not finish in 900 s); display refresh
+// @stub ZXController::refresh_memory_dependent_devices -> no-op; ZXScreen::process_clocks -> no-op (display is C08's subject)
+// @replay solver-only
+#[kani::proof]
+#[kani::unwind(29)]
+#[kani::stub(ZXController::refresh_memory_dependent_devices, noop_refresh)]
+#[kani::stub(ZXScreen::process_clocks, noop_screen_clocks)]
+fn c13_rt48_pc_low_first_ram() {
+    c13_rt48_body(0, 0, SpMode::PcLo);
+}
+
+// @harness
+// @prop C13
+// @tier quick
+// @timeout 600
+// @fn sna::save; sna::load; ScopedSnapshotState::enter/drop; Z80::push_pc_to_stack; Z80::pop_pc_from_stack; Regs alt getters; ZXController::write_7ffd; ZXController::read_7ffd; ZXMemory::ram_page_data(_mut); DataRecorder::write_all; LoadableAsset::read_exact
+// @sym saver: every register incl. alternates, I, R, IX, IY, IFF1, IFF2, IM, border, PC, witness RAM value; receiver: all registers, border, PC, IFF1, its own byte in the witness bank; 7FFD values concrete per query
+// @assert save Ok, file length 131103 (147487 when bank 2/5 is paged); saver registers/PC/IFF1/RAM witness/latch/lock unchanged; after load every SNA item, PC, 7FFD latch, lock, map at C000, ROM, screen bank equal the saver's; RAM witness equal in its bank and through the CPU map when paged
+// @bound 1 save + 1 load, 128K; witness bank 0 offset 0; saver 7FFD = 0x00|0, receiver 7FFD before load = 0x07 (concrete: a symbolic port byte makes the page pointer symbolic -> CBMC out of memory at 10 GB)
+// @assume HL' == HL in the saver (complement is KF-C13-1); receiver CPU not halted / EI-pending / mid-prefix and (128K) paging not locked before the load (complements KF-C13-4, KF-C13-5)
+// @outside RAM offsets outside the witness class {0,1,0x1AFF,0x1B00,0x3FFE,0x3FFF} (whole-page slice copies); symbolic SP (a symbolic-address store into the 48K Vec followed by the recorder reads did not finish in 900 s); display refresh; 7FFD values not enumerated
+// @stub ZXController::refresh_memory_dependent_devices -> no-op; ZXScreen::process_clocks -> no-op (display is C08's subject)
+// @replay solver-only
+#[kani::proof]
+#[kani::unwind(29)]
+#[kani::stub(ZXController::refresh_memory_dependent_devices, noop_refresh)]
+#[kani::stub(ZXScreen::process_clocks, noop_screen_clocks)]
+fn c13_rt128_bank0_paged0() {
+    c13_rt128_body(0, 0, 0, 0x00, 0x07);
+    kani::cover!(true, "round trip completed");
+}
+
+// @harness
+// @prop C13
+// @tier quick
+// @timeout 600
+// @fn sna::save; sna::load; ScopedSnapshotState::enter/drop; Z80::push_pc_to_stack; Z80::pop_pc_from_stack; Regs alt getters; ZXController::write_7ffd; ZXController::read_7ffd; ZXMemory::ram_page_data(_mut); DataRecorder::write_all; LoadableAsset::read_exact
+// @sym saver: every register incl. alternates, I, R, IX, IY, IFF1, IFF2, IM, border, PC, witness RAM value; receiver: all registers, border, PC, IFF1, its own byte in the witness bank; 7FFD values concrete per query
+// @assert save Ok, file length 131103 (147487 when bank 2/5 is paged); saver registers/PC/IFF1/RAM witness/latch/lock unchanged; after load every SNA item, PC, 7FFD latch, lock, map at C000, ROM, screen bank equal the saver's; RAM witness equal in its bank and through the CPU map when paged
+// @bound 1 save + 1 load, 128K; witness bank 1 offset 0x3FFF; saver 7FFD = 0x08|7, receiver 7FFD before load = 0x10 (concrete: a symbolic port byte makes the page pointer symbolic -> CBMC out of memory at 10 GB)
+// @assume HL' == HL in the saver (complement is KF-C13-1); receiver CPU not halted / EI-pending / mid-prefix and (128K) paging not locked before the load (complements KF-C13-4, KF-C13-5)
+// @outside RAM offsets outside the witness class {0,1,0x1AFF,0x1B00,0x3FFE,0x3FFF} (whole-page slice copies); symbolic SP (a symbolic-address store into the 48K Vec followed by the recorder reads did not finish in 900 s); display refresh; 7FFD values not enumerated
+// @stub ZXController::refresh_memory_dependent_devices -> no-op; ZXScreen::process_clocks -> no-op (display is C08's subject)
+// @replay solver-only
+#[kani::proof]
+#[kani::unwind(29)]
+#[kani::stub(ZXController::refresh_memory_dependent_devices, noop_refresh)]
+#[kani::stub(ZXScreen::process_clocks, noop_screen_clocks)]
+fn c13_rt128_bank1_paged7() {
+    c13_rt128_body(1, 7, 0x3FFF, 0x08, 0x10);
+    kani::cover!(true, "round trip completed");
+}
+
+// @harness
+// @prop C13
+// @tier quick
+// @timeout 600
+// @fn sna::save; sna::load; ScopedSnapshotState::enter/drop; Z80::push_pc_to_stack; Z80::pop_pc_from_stack; Regs alt getters; ZXController::write_7ffd; ZXController::read_7ffd; ZXMemory::ram_page_data(_mut); DataRecorder::write_all; LoadableAsset::read_exact
+// @sym saver: every register incl. alternates, I, R, IX, IY, IFF1, IFF2, IM, border, PC, witness RAM value; receiver: all registers, border, PC, IFF1, its own byte in the witness bank; 7FFD values concrete per query
+// @assert save Ok, file length 131103 (147487 when bank 2/5 is paged); saver registers/PC/IFF1/RAM witness/latch/lock unchanged; after load every SNA item, PC, 7FFD latch, lock, map at C000, ROM, screen bank equal the saver's; RAM witness equal in its bank and through the CPU map when paged
+// @bound 1 save + 1 load, 128K; witness bank 2 offset 0x1B00; saver 7FFD = 0x10|2, receiver 7FFD before load = 0x0B (concrete: a symbolic port byte makes the page pointer symbolic -> CBMC out of memory at 10 GB)
+// @assume HL' == HL in the saver (complement is KF-C13-1); receiver CPU not halted / EI-pending / mid-prefix and (128K) paging not locked before the load (complements KF-C13-4, KF-C13-5)
+// @outside RAM offsets outside the witness class {0,1,0x1AFF,0x1B00,0x3FFE,0x3FFF} (whole-page slice copies); symbolic SP (a symbolic-address store into the 48K Vec followed by the recorder reads did not finish in 900 s); display refresh; 7FFD values not enumerated
+// @stub ZXController::refresh_memory_dependent_devices -> no-op; ZXScreen::process_clocks -> no-op (display is C08's subject)
+// @replay solver-only
+#[kani::proof]
+#[kani::unwind(29)]
+#[kani::stub(ZXController::refresh_memory_dependent_devices, noop_refresh)]
+#[kani::stub(ZXScreen::process_clocks, noop_screen_clocks)]
+fn c13_rt128_bank2_paged2() {
+    c13_rt128_body(2, 2, 0x1B00, 0x10, 0x0B);
+    kani::cover!(true, "round trip completed");
+}
+
+// @harness
+// @prop C13
+// @tier quick
+// @timeout 600
+// @fn sna::save; sna::load; ScopedSnapshotState::enter/drop; Z80::push_pc_to_stack; Z80::pop_pc_from_stack; Regs alt getters; ZXController::write_7ffd; ZXController::read_7ffd; ZXMemory::ram_page_data(_mut); DataRecorder::write_all; LoadableAsset::read_exact
+// @sym saver: every register incl. alternates, I, R, IX, IY, IFF1, IFF2, IM, border, PC, witness RAM value; receiver: all registers, border, PC, IFF1, its own byte in the witness bank; 7FFD values concrete per query
+// @assert save Ok, file length 131103 (147487 when bank 2/5 is paged); saver registers/PC/IFF1/RAM witness/latch/lock unchanged; after load every SNA item, PC, 7FFD latch, lock, map at C000, ROM, screen bank equal the saver's; RAM witness equal in its bank and through the CPU map when paged
+// @bound 1 save + 1 load, 128K; witness bank 3 offset 0x3FFF; saver 7FFD = 0x28|3, receiver 7FFD before load = 0x15 (concrete: a symbolic port byte makes the page pointer symbolic -> CBMC out of memory at 10 GB)
+// @assume HL' == HL in the saver (complement is KF-C13-1); receiver CPU not halted / EI-pending / mid-prefix and (128K) paging not locked before the load (complements KF-C13-4, KF-C13-5)
+// @outside RAM offsets outside the witness class {0,1,0x1AFF,0x1B00,0x3FFE,0x3FFF} (whole-page slice copies); symbolic SP (a symbolic-address store into the 48K Vec followed by the recorder reads did not finish in 900 s); display refresh; 7FFD values not enumerated
+// @stub ZXController::refresh_memory_dependent_devices -> no-op; ZXScreen::process_clocks -> no-op (display is C08's subject)
+// @replay solver-only
+#[kani::proof]
+#[kani::unwind(29)]
+#[kani::stub(ZXController::refresh_memory_dependent_devices, noop_refresh)]
+#[kani::stub(ZXScreen::process_clocks, noop_screen_clocks)]
+fn c13_rt128_bank3_paged3() {
+    c13_rt128_body(3, 3, 0x3FFF, 0x28, 0x15);
+    kani::cover!(true, "round trip completed");
+}
+
+// @harness
+// @prop C13
+// @tier quick
+// @timeout 600
+// @fn sna::save; sna::load; ScopedSnapshotState::enter/drop; Z80::push_pc_to_stack; Z80::pop_pc_from_stack; Regs alt getters; ZXController::write_7ffd; ZXController::read_7ffd; ZXMemory::ram_page_data(_mut); DataRecorder::write_all; LoadableAsset::read_exact
+// @sym saver: every register incl. alternates, I, R, IX, IY, IFF1, IFF2, IM, border, PC, witness RAM value; receiver: all registers, border, PC, IFF1, its own byte in the witness bank; 7FFD values concrete per query
+// @assert save Ok, file length 131103 (147487 when bank 2/5 is paged); saver registers/PC/IFF1/RAM witness/latch/lock unchanged; after load every SNA item, PC, 7FFD latch, lock, map at C000, ROM, screen bank equal the saver's; RAM witness equal in its bank and through the CPU map when paged
+// @bound 1 save + 1 load, 128K; witness bank 4 offset 1; saver 7FFD = 0x38|0, receiver 7FFD before load = 0x04 (concrete: a symbolic port byte makes the page pointer symbolic -> CBMC out of memory at 10 GB)
+// @assume HL' == HL in the saver (complement is KF-C13-1); receiver CPU not halted / EI-pending / mid-prefix and (128K) paging not locked before the load (complements KF-C13-4, KF-C13-5)
+// @outside RAM offsets outside the witness class {0,1,0x1AFF,0x1B00,0x3FFE,0x3FFF} (whole-page slice copies); symbolic SP (a symbolic-address store into the 48K Vec followed by the recorder reads did not finish in 900 s); display refresh; 7FFD values not enumerated
+// @stub ZXController::refresh_memory_dependent_devices -> no-op; ZXScreen::process_clocks -> no-op (display is C08's subject)
+// @replay solver-only
+#[kani::proof]
+#[kani::unwind(29)]
+#[kani::stub(ZXController::refresh_memory_dependent_devices, noop_refresh)]
+#[kani::stub(ZXScreen::process_clocks, noop_screen_clocks)]
+fn c13_rt128_bank4_paged0() {
+    c13_rt128_body(4, 0, 1, 0x38, 0x04);
+    kani::cover!(true, "round trip completed");
+}
+
+// @harness
+// @prop C13
+// @tier quick
+// @timeout 600
+// @fn sna::save; sna::load; ScopedSnapshotState::enter/drop; Z80::push_pc_to_stack; Z80::pop_pc_from_stack; Regs alt getters; ZXController::write_7ffd; ZXController::read_7ffd; ZXMemory::ram_page_data(_mut); DataRecorder::write_all; LoadableAsset::read_exact
+// @sym saver: every register incl. alternates, I, R, IX, IY, IFF1, IFF2, IM, border, PC, witness RAM value; receiver: all registers, border, PC, IFF1, its own byte in the witness bank; 7FFD values concrete per query
+// @assert save Ok, file length 131103 (147487 when bank 2/5 is paged); saver registers/PC/IFF1/RAM witness/latch/lock unchanged; after load every SNA item, PC, 7FFD latch, lock, map at C000, ROM, screen bank equal the saver's; RAM witness equal in its bank and through the CPU map when paged
+// @bound 1 save + 1 load, 128K; witness bank 5 offset 0x1AFF; saver 7FFD = 0xC0|5, receiver 7FFD before load = 0x1E (concrete: a symbolic port byte makes the page pointer symbolic -> CBMC out of memory at 10 GB)
+// @assume HL' == HL in the saver (complement is KF-C13-1); receiver CPU not halted / EI-pending / mid-prefix and (128K) paging not locked before the load (complements KF-C13-4, KF-C13-5)
+// @outside RAM offsets outside the witness class {0,1,0x1AFF,0x1B00,0x3FFE,0x3FFF} (whole-page slice copies); symbolic SP (a symbolic-address store into the 48K Vec followed by the recorder reads did not finish in 900 s); display refresh; 7FFD values not enumerated
+// @stub ZXController::refresh_memory_dependent_devices -> no-op; ZXScreen::process_clocks -> no-op (display is C08's subject)
+// @replay solver-only
+#[kani::proof]
+#[kani::unwind(29)]
+#[kani::stub(ZXController::refresh_memory_dependent_devices, noop_refresh)]
+#[kani::stub(ZXScreen::process_clocks, noop_screen_clocks)]
+fn c13_rt128_bank5_paged5() {
+    c13_rt128_body(5, 5, 0x1AFF, 0xC0, 0x1E);
+    kani::cover!(true, "round trip completed");
+}
+
+// @harness
+// @prop C13
+// @tier quick
+// @timeout 600
+// @fn sna::save; sna::load; ScopedSnapshotState::enter/drop; Z80::push_pc_to_stack; Z80::pop_pc_from_stack; Regs alt getters; ZXController::write_7ffd; ZXController::read_7ffd; ZXMemory::ram_page_data(_mut); DataRecorder::write_all; LoadableAsset::read_exact
+// @sym saver: every register incl. alternates, I, R, IX, IY, IFF1, IFF2, IM, border, PC, witness RAM value; receiver: all registers, border, PC, IFF1, its own byte in the witness bank; 7FFD values concrete per query
+// @assert save Ok, file length 131103 (147487 when bank 2/5 is paged); saver registers/PC/IFF1/RAM witness/latch/lock unchanged; after load every SNA item, PC, 7FFD latch, lock, map at C000, ROM, screen bank equal the saver's; RAM witness equal in its bank and through the CPU map when paged
+// @bound 1 save + 1 load, 128K; witness bank 6 offset 0x3FFE; saver 7FFD = 0x20|1, receiver 7FFD before load = 0x00 (concrete: a symbolic port byte makes the page pointer symbolic -> CBMC out of memory at 10 GB)
+// @assume HL' == HL in the saver (complement is KF-C13-1); receiver CPU not halted / EI-pending / mid-prefix and (128K) paging not locked before the load (complements KF-C13-4, KF-C13-5)
+// @outside RAM offsets outside the witness class {0,1,0x1AFF,0x1B00,0x3FFE,0x3FFF} (whole-page slice copies); symbolic SP (a symbolic-address store into the 48K Vec followed by the recorder reads did not finish in 900 s); display refresh; 7FFD values not enumerated
+// @stub ZXController::refresh_memory_dependent_devices -> no-op; ZXScreen::process_clocks -> no-op (display is C08's subject)
+// @replay solver-only
+#[kani::proof]
+#[kani::unwind(29)]
+#[kani::stub(ZXController::refresh_memory_dependent_devices, noop_refresh)]
+#[kani::stub(ZXScreen::process_clocks, noop_screen_clocks)]
+fn c13_rt128_bank6_paged1() {
+    c13_rt128_body(6, 1, 0x3FFE, 0x20, 0x00);
+    kani::cover!(true, "round trip completed");
+}
+
+// @harness
+// @prop C13
+// @tier quick
+// @timeout 600
+// @fn sna::save; sna::load; ScopedSnapshotState::enter/drop; Z80::push_pc_to_stack; Z80::pop_pc_from_stack; Regs alt getters; ZXController::write_7ffd; ZXController::read_7ffd; ZXMemory::ram_page_data(_mut); DataRecorder::write_all; LoadableAsset::read_exact
+// @sym saver: every register incl. alternates, I, R, IX, IY, IFF1, IFF2, IM, border, PC, witness RAM value; receiver: all registers, border, PC, IFF1, its own byte in the witness bank; 7FFD values concrete per query
+// @assert save Ok, file length 131103 (147487 when bank 2/5 is paged); saver registers/PC/IFF1/RAM witness/latch/lock unchanged; after load every SNA item, PC, 7FFD latch, lock, map at C000, ROM, screen bank equal the saver's; RAM witness equal in its bank and through the CPU map when paged
+// @bound 1 save + 1 load, 128K; witness bank 7 offset 0; saver 7FFD = 0x18|7, receiver 7FFD before load = 0x03 (concrete: a symbolic port byte makes the page pointer symbolic -> CBMC out of memory at 10 GB)
+// @assume HL' == HL in the saver (complement is KF-C13-1); receiver CPU not halted / EI-pending / mid-prefix and (128K) paging not locked before the load (complements KF-C13-4, KF-C13-5)
+// @outside RAM offsets outside the witness class {0,1,0x1AFF,0x1B00,0x3FFE,0x3FFF} (whole-page slice copies); symbolic SP (a symbolic-address store into the 48K Vec followed by the recorder reads did not finish in 900 s); display refresh; 7FFD values not enumerated
+// @stub ZXController::refresh_memory_dependent_devices -> no-op; ZXScreen::process_clocks -> no-op (display is C08's subject)
+// @replay solver-only
+#[kani::proof]
+#[kani::unwind(29)]
+#[kani::stub(ZXController::refresh_memory_dependent_devices, noop_refresh)]
+#[kani::stub(ZXScreen::process_clocks, noop_screen_clocks)]
+fn c13_rt128_bank7_paged7() {
+    c13_rt128_body(7, 7, 0, 0x18, 0x03);
+    kani::cover!(true, "round trip completed");
+}
+
+// @harness
+// @prop C13
+// @tier thorough
+// @timeout 3600
+// @fn sna::save; sna::load; ScopedSnapshotState::enter/drop; Z80::push_pc_to_stack; Z80::pop_pc_from_stack; Regs alt getters; ZXController::write_7ffd; ZXController::read_7ffd; ZXMemory::ram_page_data(_mut); DataRecorder::write_all; LoadableAsset::read_exact
+// @sym saver: every register incl. alternates, I, R, IX, IY, IFF1, IFF2, IM, border, PC, witness RAM value; receiver: all registers, border, PC, IFF1, its own byte in the witness bank; 7FFD values concrete per query
+// @assert save Ok, file length 131103 (147487 when bank 2/5 is paged); saver registers/PC/IFF1/RAM witness/latch/lock unchanged; after load every SNA item, PC, 7FFD latch, lock, map at C000, ROM, screen bank equal the saver's; RAM witness equal in its bank and through the CPU map when paged
+// @bound 8 x (1 save + 1 load), 128K; witness bank 0 offset 0; every paged bank 0..7 with rotating high 7FFD bits
+// @assume HL' == HL in the saver (complement is KF-C13-1); receiver CPU not halted / EI-pending / mid-prefix and (128K) paging not locked before the load (complements KF-C13-4, KF-C13-5)
+// @outside RAM offsets outside the witness class {0,1,0x1AFF,0x1B00,0x3FFE,0x3FFF} (whole-page slice copies); symbolic SP (a symbolic-address store into the 48K Vec followed by the recorder reads did not finish in 900 s); display refresh; 7FFD values not enumerated
+// @stub ZXController::refresh_memory_dependent_devices -> no-op; ZXScreen::process_clocks -> no-op (display is C08's subject)
+// @replay solver-only
+#[kani::proof]
+#[kani::unwind(29)]
+#[kani::stub(ZXController::refresh_memory_dependent_devices, noop_refresh)]
+#[kani::stub(ZXScreen::process_clocks, noop_screen_clocks)]
+fn c13_rt128_bank0_all_paged() {
+    let his: [u8; 8] = [0x00, 0x08, 0x10, 0x20, 0x38, 0xC0, 0x28, 0x18];
+    let mut paged = 0u8;
+    while paged < 8 {
+        c13_rt128_body(0, paged, 0, his[((paged + 0) & 7) as usize], his[((paged + 5) & 7) as usize] & 0x1F | ((paged + 3) & 7));
+        paged += 1;
+    }
+    kani::cover!(true, "all eight paged banks done");
+}
+
+// @harness
+// @prop C13
+// @tier thorough
+// @timeout 3600
+// @fn sna::save; sna::load; ScopedSnapshotState::enter/drop; Z80::push_pc_to_stack; Z80::pop_pc_from_stack; Regs alt getters; ZXController::write_7ffd; ZXController::read_7ffd; ZXMemory::ram_page_data(_mut); DataRecorder::write_all; LoadableAsset::read_exact
+// @sym saver: every register incl. alternates, I, R, IX, IY, IFF1, IFF2, IM, border, PC, witness RAM value; receiver: all registers, border, PC, IFF1, its own byte in the witness bank; 7FFD values concrete per query
+// @assert save Ok, file length 131103 (147487 when bank 2/5 is paged); saver registers/PC/IFF1/RAM witness/latch/lock unchanged; after load every SNA item, PC, 7FFD latch, lock, map at C000, ROM, screen bank equal the saver's; RAM witness equal in its bank and through the CPU map when paged
+// @bound 8 x (1 save + 1 load), 128K; witness bank 1 offset 0x3FFF; every paged bank 0..7 with rotating high 7FFD bits
+// @assume HL' == HL in the saver (complement is KF-C13-1); receiver CPU not halted / EI-pending / mid-prefix and (128K) paging not locked before the load (complements KF-C13-4, KF-C13-5)
+// @outside RAM offsets outside the witness class {0,1,0x1AFF,0x1B00,0x3FFE,0x3FFF} (whole-page slice copies); symbolic SP (a symbolic-address store into the 48K Vec followed by the recorder reads did not finish in 900 s); display refresh; 7FFD values not enumerated
+// @stub ZXController::refresh_memory_dependent_devices -> no-op; ZXScreen::process_clocks -> no-op (display is C08's subject)
+// @replay solver-only
+#[kani::proof]
+#[kani::unwind(29)]
+#[kani::stub(ZXController::refresh_memory_dependent_devices, noop_refresh)]
+#[kani::stub(ZXScreen::process_clocks, noop_screen_clocks)]
+fn c13_rt128_bank1_all_paged() {
+    let his: [u8; 8] = [0x00, 0x08, 0x10, 0x20, 0x38, 0xC0, 0x28, 0x18];
+    let mut paged = 0u8;
+    while paged < 8 {
+        c13_rt128_body(1, paged, 0x3FFF, his[((paged + 1) & 7) as usize], his[((paged + 6) & 7) as usize] & 0x1F | ((paged + 3) & 7));
+        paged += 1;
+    }
+    kani::cover!(true, "all eight paged banks done");
+}
+
+// @harness
+// @prop C13
+// @tier thorough
+// @timeout 3600
+// @fn sna::save; sna::load; ScopedSnapshotState::enter/drop; Z80::push_pc_to_stack; Z80::pop_pc_from_stack; Regs alt getters; ZXController::write_7ffd; ZXController::read_7ffd; ZXMemory::ram_page_data(_mut); DataRecorder::write_all; LoadableAsset::read_exact
+// @sym saver: every register incl. alternates, I, R, IX, IY, IFF1, IFF2, IM, border, PC, witness RAM value; receiver: all registers, border, PC, IFF1, its own byte in the witness bank; 7FFD values concrete per query
+// @assert save Ok, file length 131103 (147487 when bank 2/5 is paged); saver registers/PC/IFF1/RAM witness/latch/lock unchanged; after load every SNA item, PC, 7FFD latch, lock, map at C000, ROM, screen bank equal the saver's; RAM witness equal in its bank and through the CPU map when paged
+// @bound 8 x (1 save + 1 load), 128K; witness bank 2 offset 0x1B00; every paged bank 0..7 with rotating high 7FFD bits
+// @assume HL' == HL in the saver (complement is KF-C13-1); receiver CPU not halted / EI-pending / mid-prefix and (128K) paging not locked before the load (complements KF-C13-4, KF-C13-5)
+// @outside RAM offsets outside the witness class {0,1,0x1AFF,0x1B00,0x3FFE,0x3FFF} (whole-page slice copies); symbolic SP (a symbolic-address store into the 48K Vec followed by the recorder reads did not finish in 900 s); display refresh; 7FFD values not enumerated
+// @stub ZXController::refresh_memory_dependent_devices -> no-op; ZXScreen::process_clocks -> no-op (display is C08's subject)
+// @replay solver-only
+#[kani::proof]
+#[kani::unwind(29)]
+#[kani::stub(ZXController::refresh_memory_dependent_devices, noop_refresh)]
+#[kani::stub(ZXScreen::process_clocks, noop_screen_clocks)]
+fn c13_rt128_bank2_all_paged() {
+    let his: [u8; 8] = [0x00, 0x08, 0x10, 0x20, 0x38, 0xC0, 0x28, 0x18];
+    let mut paged = 0u8;
+    while paged < 8 {
+        c13_rt128_body(2, paged, 0x1B00, his[((paged + 2) & 7) as usize], his[((paged + 7) & 7) as usize] & 0x1F | ((paged + 3) & 7));
+        paged += 1;
+    }
+    kani::cover!(true, "all eight paged banks done");
+}
+
+// @harness
+// @prop C13
+// @tier thorough
+// @timeout 3600
+// @fn sna::save; sna::load; ScopedSnapshotState::enter/drop; Z80::push_pc_to_stack; Z80::pop_pc_from_stack; Regs alt getters; ZXController::write_7ffd; ZXController::read_7ffd; ZXMemory::ram_page_data(_mut); DataRecorder::write_all; LoadableAsset::read_exact
+// @sym saver: every register incl. alternates, I, R, IX, IY, IFF1, IFF2, IM, border, PC, witness RAM value; receiver: all registers, border, PC, IFF1, its own byte in the witness bank; 7FFD values concrete per query
+// @assert save Ok, file length 131103 (147487 when bank 2/5 is paged); saver registers/PC/IFF1/RAM witness/latch/lock unchanged; after load every SNA item, PC, 7FFD latch, lock, map at C000, ROM, screen bank equal the saver's; RAM witness equal in its bank and through the CPU map when paged
+// @bound 8 x (1 save + 1 load), 128K; witness bank 3 offset 1; every paged bank 0..7 with rotating high 7FFD bits
+// @assume HL' == HL in the saver (complement is KF-C13-1); receiver CPU not halted / EI-pending / mid-prefix and (128K) paging not locked before the load (complements KF-C13-4, KF-C13-5)
+// @outside RAM offsets outside the witness class {0,1,0x1AFF,0x1B00,0x3FFE,0x3FFF} (whole-page slice copies); symbolic SP (a symbolic-address store into the 48K Vec followed by the recorder reads did not finish in 900 s); display refresh; 7FFD values not enumerated
+// @stub ZXController::refresh_memory_dependent_devices -> no-op; ZXScreen::process_clocks -> no-op (display is C08's subject)
+// @replay solver-only
+#[kani::proof]
+#[kani::unwind(29)]
+#[kani::stub(ZXController::refresh_memory_dependent_devices, noop_refresh)]
+#[kani::stub(ZXScreen::process_clocks, noop_screen_clocks)]
+fn c13_rt128_bank3_all_paged() {
+    let his: [u8; 8] = [0x00, 0x08, 0x10, 0x20, 0x38, 0xC0, 0x28, 0x18];
+    let mut paged = 0u8;
+    while paged < 8 {
+        c13_rt128_body(3, paged, 1, his[((paged + 3) & 7) as usize], his[((paged + 8) & 7) as usize] & 0x1F | ((paged + 3) & 7));
+        paged += 1;
+    }
+    kani::cover!(true, "all eight paged banks done");
+}
+
+// @harness
+// @prop C13
+// @tier thorough
+// @timeout 3600
+// @fn sna::save; sna::load; ScopedSnapshotState::enter/drop; Z80::push_pc_to_stack; Z80::pop_pc_from_stack; Regs alt getters; ZXController::write_7ffd; ZXController::read_7ffd; ZXMemory::ram_page_data(_mut); DataRecorder::write_all; LoadableAsset::read_exact
+// @sym saver: every register incl. alternates, I, R, IX, IY, IFF1, IFF2, IM, border, PC, witness RAM value; receiver: all registers, border, PC, IFF1, its own byte in the witness bank; 7FFD values concrete per query
+// @assert save Ok, file length 131103 (147487 when bank 2/5 is paged); saver registers/PC/IFF1/RAM witness/latch/lock unchanged; after load every SNA item, PC, 7FFD latch, lock, map at C000, ROM, screen bank equal the saver's; RAM witness equal in its bank and through the CPU map when paged
+// @bound 8 x (1 save + 1 load), 128K; witness bank 4 offset 0x3FFE; every paged bank 0..7 with rotating high 7FFD bits
+// @assume HL' == HL in the saver (complement is KF-C13-1); receiver CPU not halted / EI-pending / mid-prefix and (128K) paging not locked before the load (complements KF-C13-4, KF-C13-5)
+// @outside RAM offsets outside the witness class {0,1,0x1AFF,0x1B00,0x3FFE,0x3FFF} (whole-page slice copies); symbolic SP (a symbolic-address store into the 48K Vec followed by the recorder reads did not finish in 900 s); display refresh; 7FFD values not enumerated
+// @stub ZXController::refresh_memory_dependent_devices -> no-op; ZXScreen::process_clocks -> no-op (display is C08's subject)
+// @replay solver-only
+#[kani::proof]
+#[kani::unwind(29)]
+#[kani::stub(ZXController::refresh_memory_dependent_devices, noop_refresh)]
+#[kani::stub(ZXScreen::process_clocks, noop_screen_clocks)]
+fn c13_rt128_bank4_all_paged() {
+    let his: [u8; 8] = [0x00, 0x08, 0x10, 0x20, 0x38, 0xC0, 0x28, 0x18];
+    let mut paged = 0u8;
+    while paged < 8 {
+        c13_rt128_body(4, paged, 0x3FFE, his[((paged + 4) & 7) as usize], his[((paged + 9) & 7) as usize] & 0x1F | ((paged + 3) & 7));
+        paged += 1;
+    }
+    kani::cover!(true, "all eight paged banks done");
+}
+
+// @harness
+// @prop C13
+// @tier thorough
+// @timeout 3600
+// @fn sna::save; sna::load; ScopedSnapshotState::enter/drop; Z80::push_pc_to_stack; Z80::pop_pc_from_stack; Regs alt getters; ZXController::write_7ffd; ZXController::read_7ffd; ZXMemory::ram_page_data(_mut); DataRecorder::write_all; LoadableAsset::read_exact
+// @sym saver: every register incl. alternates, I, R, IX, IY, IFF1, IFF2, IM, border, PC, witness RAM value; receiver: all registers, border, PC, IFF1, its own byte in the witness bank; 7FFD values concrete per query
+// @assert save Ok, file length 131103 (147487 when bank 2/5 is paged); saver registers/PC/IFF1/RAM witness/latch/lock unchanged; after load every SNA item, PC, 7FFD latch, lock, map at C000, ROM, screen bank equal the saver's; RAM witness equal in its bank and through the CPU map when paged
+// @bound 8 x (1 save + 1 load), 128K; witness bank 5 offset 0x1AFF; every paged bank 0..7 with rotating high 7FFD bits
+// @assume HL' == HL in the saver (complement is KF-C13-1); receiver CPU not halted / EI-pending / mid-prefix and (128K) paging not locked before the load (complements KF-C13-4, KF-C13-5)
+// @outside RAM offsets outside the witness class {0,1,0x1AFF,0x1B00,0x3FFE,0x3FFF} (whole-page slice copies); symbolic SP (a symbolic-address store into the 48K Vec followed by the recorder reads did not finish in 900 s); display refresh; 7FFD values not enumerated
+// @stub ZXController::refresh_memory_dependent_devices -> no-op; ZXScreen::process_clocks -> no-op (display is C08's subject)
+// @replay solver-only
+#[kani::proof]
+#[kani::unwind(29)]
+#[kani::stub(ZXController::refresh_memory_dependent_devices, noop_refresh)]
+#[kani::stub(ZXScreen::process_clocks, noop_screen_clocks)]
+fn c13_rt128_bank5_all_paged() {
+    let his: [u8; 8] = [0x00, 0x08, 0x10, 0x20, 0x38, 0xC0, 0x28, 0x18];
+    let mut paged = 0u8;
+    while paged < 8 {
+        c13_rt128_body(5, paged, 0x1AFF, his[((paged + 5) & 7) as usize], his[((paged + 10) & 7) as usize] & 0x1F | ((paged + 3) & 7));
+        paged += 1;
+    }
+    kani::cover!(true, "all eight paged banks done");
+}
+
+// @harness
+// @prop C13
+// @tier thorough
+// @timeout 3600
+// @fn sna::save; sna::load; ScopedSnapshotState::enter/drop; Z80::push_pc_to_stack; Z80::pop_pc_from_stack; Regs alt getters; ZXController::write_7ffd; ZXController::read_7ffd; ZXMemory::ram_page_data(_mut); DataRecorder::write_all; LoadableAsset::read_exact
+// @sym saver: every register incl. alternates, I, R, IX, IY, IFF1, IFF2, IM, border, PC, witness RAM value; receiver: all registers, border, PC, IFF1, its own byte in the witness bank; 7FFD values concrete per query
+// @assert save Ok, file length 131103 (147487 when bank 2/5 is paged); saver registers/PC/IFF1/RAM witness/latch/lock unchanged; after load every SNA item, PC, 7FFD latch, lock, map at C000, ROM, screen bank equal the saver's; RAM witness equal in its bank and through the CPU map when paged
+// @bound 8 x (1 save + 1 load), 128K; witness bank 6 offset 0x3FFF; every paged bank 0..7 with rotating high 7FFD bits
+// @assume HL' == HL in the saver (complement is KF-C13-1); receiver CPU not halted / EI-pending / mid-prefix and (128K) paging not locked before the load (complements KF-C13-4, KF-C13-5)
+// @outside RAM offsets outside the witness class {0,1,0x1AFF,0x1B00,0x3FFE,0x3FFF} (whole-page slice copies); symbolic SP (a symbolic-address store into the 48K Vec followed by the recorder reads did not finish in 900 s); display refresh; 7FFD values not enumerated
+// @stub ZXController::refresh_memory_dependent_devices -> no-op; ZXScreen::process_clocks -> no-op (display is C08's subject)
+// @replay solver-only
+#[kani::proof]
+#[kani::unwind(29)]
+#[kani::stub(ZXController::refresh_memory_dependent_devices, noop_refresh)]
+#[kani::stub(ZXScreen::process_clocks, noop_screen_clocks)]
+fn c13_rt128_bank6_all_paged() {
+    let his: [u8; 8] = [0x00, 0x08, 0x10, 0x20, 0x38, 0xC0, 0x28, 0x18];
+    let mut paged = 0u8;
+    while paged < 8 {
+        c13_rt128_body(6, paged, 0x3FFF, his[((paged + 6) & 7) as usize], his[((paged + 11) & 7) as usize] & 0x1F | ((paged + 3) & 7));
+        paged += 1;
+    }
+    kani::cover!(true, "all eight paged banks done");
+}
+
+// @harness
+// @prop C13
+// @tier thorough
+// @timeout 3600
+// @fn sna::save; sna::load; ScopedSnapshotState::enter/drop; Z80::push_pc_to_stack; Z80::pop_pc_from_stack; Regs alt getters; ZXController::write_7ffd; ZXController::read_7ffd; ZXMemory::ram_page_data(_mut); DataRecorder::write_all; LoadableAsset::read_exact
+// @sym saver: every register incl. alternates, I, R, IX, IY, IFF1, IFF2, IM, border, PC, witness RAM value; receiver: all registers, border, PC, IFF1, its own byte in the witness bank; 7FFD values concrete per query
+// @assert save Ok, file length 131103 (147487 when bank 2/5 is paged); saver registers/PC/IFF1/RAM witness/latch/lock unchanged; after load every SNA item, PC, 7FFD latch, lock, map at C000, ROM, screen bank equal the saver's; RAM witness equal in its bank and through the CPU map when paged
+// @bound 8 x (1 save + 1 load), 128K; witness bank 7 offset 0; every paged bank 0..7 with rotating high 7FFD bits
+// @assume HL' == HL in the saver (complement is KF-C13-1); receiver CPU not halted / EI-pending / mid-prefix and (128K) paging not locked before the load (complements KF-C13-4, KF-C13-5)
+// @outside RAM offsets outside the witness class {0,1,0x1AFF,0x1B00,0x3FFE,0x3FFF} (whole-page slice copies); symbolic SP (a symbolic-address store into the 48K Vec followed by the recorder reads did not finish in 900 s); display refresh; 7FFD values not enumerated
+// @stub ZXController::refresh_memory_dependent_devices -> no-op; ZXScreen::process_clocks -> no-op (display is C08's subject)
+// @replay solver-only
+#[kani::proof]
+#[kani::unwind(29)]
+#[kani::stub(ZXController::refresh_memory_dependent_devices, noop_refresh)]
+#[kani::stub(ZXScreen::process_clocks, noop_screen_clocks)]
+fn c13_rt128_bank7_all_paged() {
+    let his: [u8; 8] = [0x00, 0x08, 0x10, 0x20, 0x38, 0xC0, 0x28, 0x18];
+    let mut paged = 0u8;
+    while paged < 8 {
+        c13_rt128_body(7, paged, 0, his[((paged + 7) & 7) as usize], his[((paged + 12) & 7) as usize] & 0x1F | ((paged + 3) & 7));
+        paged += 1;
+    }
+    kani::cover!(true, "all eight paged banks done");
+}
+
+// @harness
+// @prop C14
+// @tier quick
+// @timeout 600
+// @fn sna::load; LoadableAsset::read_exact; Z80::pop_pc_from_stack; Z80::set_im; ZXColor::from_bits; ZXController::set_border_color; ZXController::write_7ffd; ZXMemory::ram_page_data_mut; Regs setters
+// @sym all 27 header bytes through the spec encoder (every register, IFF2, IM 0..2, border 0..7, undefined bits of byte 19), witness RAM value, receiver registers/border/PC/IFF1, receiver's byte at the witness address
+// @assert load returns Ok; every SNA item equals the encoded abstract state (SP advanced by the PC pop), IFF1 = IFF2, PC = the word at SP when SP,SP+1 are RAM, RAM witness = file byte, CPU neither halted nor EI-pending
+// @bound one load; 48K; witness page 1 offset 0x3FFF; SP Some(0xBFFF); everything else symbolic
+// @assume receiver CPU not halted / no EI pending / no prefix pending and (128K) paging unlocked before the load (complements: KF-C14-1, KF-C14-2)
+// @outside RAM offsets outside the witness class (page transfers are whole-slice copies); display refresh
+// @stub ZXController::refresh_memory_dependent_devices -> no-op; ZXScreen::process_clocks -> no-op (display is C08's subject)
+// @replay solver-only
+#[kani::proof]
+#[kani::unwind(29)]
+#[kani::stub(ZXController::refresh_memory_dependent_devices, noop_refresh)]
+#[kani::stub(ZXScreen::process_clocks, noop_screen_clocks)]
+fn c14_sna48_load_p1_last_sp_on_witness() {
+    c14_sna48_body(1, 0x3FFF, Some(0xBFFF));
+}
+
+// @harness
+// @prop C14
+// @tier quick
+// @timeout 600
+// @fn sna::load; LoadableAsset::read_exact; Z80::pop_pc_from_stack; Z80::set_im; ZXColor::from_bits; ZXController::set_border_color; ZXController::write_7ffd; ZXMemory::ram_page_data_mut; Regs setters
+// @sym all 27 header bytes through the spec encoder (every register, IFF2, IM 0..2, border 0..7, undefined bits of byte 19), witness RAM value, receiver registers/border/PC/IFF1, receiver's byte at the witness address
+// @assert load returns Ok; every SNA item equals the encoded abstract state (SP advanced by the PC pop), IFF1 = IFF2, PC = the word at SP when SP,SP+1 are RAM, RAM witness = file byte, CPU neither halted nor EI-pending
+// @bound one load; 48K; witness page 2 offset 0x1B00; SP Some(0x1234); everything else symbolic
+// @assume receiver CPU not halted / no EI pending / no prefix pending and (128K) paging unlocked before the load (complements: KF-C14-1, KF-C14-2)
+// @outside RAM offsets outside the witness class (page transfers are whole-slice copies); display refresh
+// @stub ZXController::refresh_memory_dependent_devices -> no-op; ZXScreen::process_clocks -> no-op (display is C08's subject)
+// @replay solver-only
+#[kani::proof]
+#[kani::unwind(29)]
+#[kani::stub(ZXController::refresh_memory_dependent_devices, noop_refresh)]
+#[kani::stub(ZXScreen::process_clocks, noop_screen_clocks)]
+fn c14_sna48_load_p2_attr_sp_rom() {
+    c14_sna48_body(2, 0x1B00, Some(0x1234));
+}
+
+// @harness
+// @prop C14
+// @tier quick
+// @timeout 600
+// @fn sna::load; LoadableAsset::read_exact; Z80::pop_pc_from_stack; Z80::set_im; ZXColor::from_bits; ZXController::set_border_color; ZXController::write_7ffd; ZXMemory::ram_page_data_mut; Regs setters
+// @sym all 27 header bytes through the spec encoder (every register, IFF2, IM 0..2, border 0..7, undefined bits of byte 19), witness RAM value, receiver registers/border/PC/IFF1, receiver's byte at the witness address
+// @assert load returns Ok; every SNA item equals the encoded abstract state (SP advanced by the PC pop), IFF1 = IFF2, PC = the word at SP when SP,SP+1 are RAM, RAM witness = file byte, CPU neither halted nor EI-pending
+// @bound one load; 48K; witness page 2 offset 0x3FFF; SP Some(0xFFFE); everything else symbolic
+// @assume receiver CPU not halted / no EI pending / no prefix pending and (128K) paging unlocked before the load (complements: KF-C14-1, KF-C14-2)
+// @outside RAM offsets outside the witness class (page transfers are whole-slice copies); display refresh
+// @stub ZXController::refresh_memory_dependent_devices -> no-op; ZXScreen::process_clocks -> no-op (display is C08's subject)
+// @replay solver-only
+#[kani::proof]
+#[kani::unwind(29)]
+#[kani::stub(ZXController::refresh_memory_dependent_devices, noop_refresh)]
+#[kani::stub(ZXScreen::process_clocks, noop_screen_clocks)]
+fn c14_sna48_load_p2_last_sp_hi_on_witness() {
+    c14_sna48_body(2, 0x3FFF, Some(0xFFFE));
+}
+
+// @harness
+// @prop C14
+// @tier thorough
+// @timeout 600
+// @fn sna::load; LoadableAsset::read_exact; Z80::pop_pc_from_stack; Z80::set_im; ZXColor::from_bits; ZXController::set_border_color; ZXController::write_7ffd; ZXMemory::ram_page_data_mut; Regs setters
+// @sym all 27 header bytes through the spec encoder (every register, IFF2, IM 0..2, border 0..7, undefined bits of byte 19), witness RAM value, receiver registers/border/PC/IFF1, receiver's byte at the witness address
+// @assert load returns Ok; every SNA item equals the encoded abstract state (SP advanced by the PC pop), IFF1 = IFF2, PC = the word at SP when SP,SP+1 are RAM, RAM witness = file byte, CPU neither halted nor EI-pending
+// @bound one load; 48K; witness page 0 offset 0x1AFF; SP Some(0x5AFE); everything else symbolic
+// @assume receiver CPU not halted / no EI pending / no prefix pending and (128K) paging unlocked before the load (complements: KF-C14-1, KF-C14-2)
+// @outside RAM offsets outside the witness class (page transfers are whole-slice copies); display refresh
+// @stub ZXController::refresh_memory_dependent_devices -> no-op; ZXScreen::process_clocks -> no-op (display is C08's subject)
+// @replay solver-only
+#[kani::proof]
+#[kani::unwind(29)]
+#[kani::stub(ZXController::refresh_memory_dependent_devices, noop_refresh)]
+#[kani::stub(ZXScreen::process_clocks, noop_screen_clocks)]
+fn c14_sna48_load_p0_1aff() {
+    c14_sna48_body(0, 0x1AFF, Some(0x5AFE));
+}
+
+// @harness
+// @prop C14
+// @tier thorough
+// @timeout 600
+// @fn sna::load; LoadableAsset::read_exact; Z80::pop_pc_from_stack; Z80::set_im; ZXColor::from_bits; ZXController::set_border_color; ZXController::write_7ffd; ZXMemory::ram_page_data_mut; Regs setters
+// @sym all 27 header bytes through the spec encoder (every register, IFF2, IM 0..2, border 0..7, undefined bits of byte 19), witness RAM value, receiver registers/border/PC/IFF1, receiver's byte at the witness address
+// @assert load returns Ok; every SNA item equals the encoded abstract state (SP advanced by the PC pop), IFF1 = IFF2, PC = the word at SP when SP,SP+1 are RAM, RAM witness = file byte, CPU neither halted nor EI-pending
+// @bound one load; 48K; witness page 1 offset 0; SP Some(0x8000); everything else symbolic
+// @assume receiver CPU not halted / no EI pending / no prefix pending and (128K) paging unlocked before the load (complements: KF-C14-1, KF-C14-2)
+// @outside RAM offsets outside the witness class (page transfers are whole-slice copies); display refresh
+// @stub ZXController::refresh_memory_dependent_devices -> no-op; ZXScreen::process_clocks -> no-op (display is C08's subject)
+// @replay solver-only
+#[kani::proof]
+#[kani::unwind(29)]
+#[kani::stub(ZXController::refresh_memory_dependent_devices, noop_refresh)]
+#[kani::stub(ZXScreen::process_clocks, noop_screen_clocks)]
+fn c14_sna48_load_p1_first() {
+    c14_sna48_body(1, 0, Some(0x8000));
+}
+
+// @harness
+// @prop C14
+// @tier thorough
+// @timeout 600
+// @fn sna::load; LoadableAsset::read_exact; Z80::pop_pc_from_stack; Z80::set_im; ZXColor::from_bits; ZXController::set_border_color; ZXController::write_7ffd; ZXMemory::ram_page_data_mut; Regs setters
+// @sym all 27 header bytes through the spec encoder (every register, IFF2, IM 0..2, border 0..7, undefined bits of byte 19), witness RAM value, receiver registers/border/PC/IFF1, receiver's byte at the witness address
+// @assert load returns Ok; every SNA item equals the encoded abstract state (SP advanced by the PC pop), IFF1 = IFF2, PC = the word at SP when SP,SP+1 are RAM, RAM witness = file byte, CPU neither halted nor EI-pending
+// @bound one load; 48K; witness page 2 offset 0; SP Some(0xFFFF); everything else symbolic
+// @assume receiver CPU not halted / no EI pending / no prefix pending and (128K) paging unlocked before the load (complements: KF-C14-1, KF-C14-2)
+// @outside RAM offsets outside the witness class (page transfers are whole-slice copies); display refresh
+// @stub ZXController::refresh_memory_dependent_devices -> no-op; ZXScreen::process_clocks -> no-op (display is C08's subject)
+// @replay solver-only
+#[kani::proof]
+#[kani::unwind(29)]
+#[kani::stub(ZXController::refresh_memory_dependent_devices, noop_refresh)]
+#[kani::stub(ZXScreen::process_clocks, noop_screen_clocks)]
+fn c14_sna48_load_p2_first_spffff() {
+    c14_sna48_body(2, 0, Some(0xFFFF));
+}
+
+// @harness
+// @prop C14
+// @tier quick
+// @timeout 600
+// @fn sna::load; LoadableAsset::read_exact; Z80::pop_pc_from_stack; Z80::set_im; ZXColor::from_bits; ZXController::set_border_color; ZXController::write_7ffd; ZXMemory::ram_page_data_mut; Regs setters
+// @sym all 27 header bytes through the spec encoder, PC, TR-DOS flag byte, witness RAM value, receiver registers/border/PC/IFF1 and its byte in the witness bank; 7FFD byte concrete per query
+// @assert load returns Ok; every SNA item equals the abstract state, IFF1 = IFF2, PC = file PC, 7FFD latch/lock/map at 0000,4000,8000,C000/screen bank as the port byte says, RAM witness lands in the bank the layout assigns (also through the CPU map when paged), CPU neither halted nor EI-pending
+// @bound one load, 128K; witness bank 0 offset 0x3FFF; file 7FFD = 0x00|3, receiver 7FFD before = 0x06 (concrete; symbolic port byte -> CBMC out of memory)
+// @assume receiver CPU not halted / no EI pending / no prefix pending and (128K) paging unlocked before the load (complements: KF-C14-1, KF-C14-2)
+// @outside RAM offsets outside the witness class (page transfers are whole-slice copies); display refresh; 7FFD values not enumerated
+// @stub ZXController::refresh_memory_dependent_devices -> no-op; ZXScreen::process_clocks -> no-op (display is C08's subject)
+// @replay solver-only
+#[kani::proof]
+#[kani::unwind(29)]
+#[kani::stub(ZXController::refresh_memory_dependent_devices, noop_refresh)]
+#[kani::stub(ZXScreen::process_clocks, noop_screen_clocks)]
+fn c14_sna128_load_bank0_paged3() {
+    c14_sna128_body(0, 3, 0x3FFF, 0x00, 0x06);
+}
+
+// @harness
+// @prop C14
+// @tier quick
+// @timeout 600
+// @fn sna::load; LoadableAsset::read_exact; Z80::pop_pc_from_stack; Z80::set_im; ZXColor::from_bits; ZXController::set_border_color; ZXController::write_7ffd; ZXMemory::ram_page_data_mut; Regs setters
+// @sym all 27 header bytes through the spec encoder, PC, TR-DOS flag byte, witness RAM value, receiver registers/border/PC/IFF1 and its byte in the witness bank; 7FFD byte concrete per query
+// @assert load returns Ok; every SNA item equals the abstract state, IFF1 = IFF2, PC = file PC, 7FFD latch/lock/map at 0000,4000,8000,C000/screen bank as the port byte says, RAM witness lands in the bank the layout assigns (also through the CPU map when paged), CPU neither halted nor EI-pending
+// @bound one load, 128K; witness bank 1 offset 0; file 7FFD = 0x38|1, receiver 7FFD before = 0x17 (concrete; symbolic port byte -> CBMC out of memory)
+// @assume receiver CPU not halted / no EI pending / no prefix pending and (128K) paging unlocked before the load (complements: KF-C14-1, KF-C14-2)
+// @outside RAM offsets outside the witness class (page transfers are whole-slice copies); display refresh; 7FFD values not enumerated
+// @stub ZXController::refresh_memory_dependent_devices -> no-op; ZXScreen::process_clocks -> no-op (display is C08's subject)
+// @replay solver-only
+#[kani::proof]
+#[kani::unwind(29)]
+#[kani::stub(ZXController::refresh_memory_dependent_devices, noop_refresh)]
+#[kani::stub(ZXScreen::process_clocks, noop_screen_clocks)]
+fn c14_sna128_load_bank1_paged1() {
+    c14_sna128_body(1, 1, 0, 0x38, 0x17);
+}
+
+// @harness
+// @prop C14
+// @tier quick
+// @timeout 600
+// @fn sna::load; LoadableAsset::read_exact; Z80::pop_pc_from_stack; Z80::set_im; ZXColor::from_bits; ZXController::set_border_color; ZXController::write_7ffd; ZXMemory::ram_page_data_mut; Regs setters
+// @sym all 27 header bytes through the spec encoder, PC, TR-DOS flag byte, witness RAM value, receiver registers/border/PC/IFF1 and its byte in the witness bank; 7FFD byte concrete per query
+// @assert load returns Ok; every SNA item equals the abstract state, IFF1 = IFF2, PC = file PC, 7FFD latch/lock/map at 0000,4000,8000,C000/screen bank as the port byte says, RAM witness lands in the bank the layout assigns (also through the CPU map when paged), CPU neither halted nor EI-pending
+// @bound one load, 128K; witness bank 2 offset 0x1B00; file 7FFD = 0x10|6, receiver 7FFD before = 0x08 (concrete; symbolic port byte -> CBMC out of memory)
+// @assume receiver CPU not halted / no EI pending / no prefix pending and (128K) paging unlocked before the load (complements: KF-C14-1, KF-C14-2)
+// @outside RAM offsets outside the witness class (page transfers are whole-slice copies); display refresh; 7FFD values not enumerated
+// @stub ZXController::refresh_memory_dependent_devices -> no-op; ZXScreen::process_clocks -> no-op (display is C08's subject)
+// @replay solver-only
+#[kani::proof]
+#[kani::unwind(29)]
+#[kani::stub(ZXController::refresh_memory_dependent_devices, noop_refresh)]
+#[kani::stub(ZXScreen::process_clocks, noop_screen_clocks)]
+fn c14_sna128_load_bank2_paged6() {
+    c14_sna128_body(2, 6, 0x1B00, 0x10, 0x08);
+}
+
+// @harness
+// @prop C14
+// @tier quick
+// @timeout 600
+// @fn sna::load; LoadableAsset::read_exact; Z80::pop_pc_from_stack; Z80::set_im; ZXColor::from_bits; ZXController::set_border_color; ZXController::write_7ffd; ZXMemory::ram_page_data_mut; Regs setters
+// @sym all 27 header bytes through the spec encoder, PC, TR-DOS flag byte, witness RAM value, receiver registers/border/PC/IFF1 and its byte in the witness bank; 7FFD byte concrete per query
+// @assert load returns Ok; every SNA item equals the abstract state, IFF1 = IFF2, PC = file PC, 7FFD latch/lock/map at 0000,4000,8000,C000/screen bank as the port byte says, RAM witness lands in the bank the layout assigns (also through the CPU map when paged), CPU neither halted nor EI-pending
+// @bound one load, 128K; witness bank 3 offset 1; file 7FFD = 0x28|3, receiver 7FFD before = 0x1F (concrete; symbolic port byte -> CBMC out of memory)
+// @assume receiver CPU not halted / no EI pending / no prefix pending and (128K) paging unlocked before the load (complements: KF-C14-1, KF-C14-2)
+// @outside RAM offsets outside the witness class (page transfers are whole-slice copies); display refresh; 7FFD values not enumerated
+// @stub ZXController::refresh_memory_dependent_devices -> no-op; ZXScreen::process_clocks -> no-op (display is C08's subject)
+// @replay solver-only
+#[kani::proof]
+#[kani::unwind(29)]
+#[kani::stub(ZXController::refresh_memory_dependent_devices, noop_refresh)]
+#[kani::stub(ZXScreen::process_clocks, noop_screen_clocks)]
+fn c14_sna128_load_bank3_paged3() {
+    c14_sna128_body(3, 3, 1, 0x28, 0x1F);
+}
+
+// @harness
+// @prop C14
+// @tier quick
+// @timeout 600
+// @fn sna::load; LoadableAsset::read_exact; Z80::pop_pc_from_stack; Z80::set_im; ZXColor::from_bits; ZXController::set_border_color; ZXController::write_7ffd; ZXMemory::ram_page_data_mut; Regs setters
+// @sym all 27 header bytes through the spec encoder, PC, TR-DOS flag byte, witness RAM value, receiver registers/border/PC/IFF1 and its byte in the witness bank; 7FFD byte concrete per query
+// @assert load returns Ok; every SNA item equals the abstract state, IFF1 = IFF2, PC = file PC, 7FFD latch/lock/map at 0000,4000,8000,C000/screen bank as the port byte says, RAM witness lands in the bank the layout assigns (also through the CPU map when paged), CPU neither halted nor EI-pending
+// @bound one load, 128K; witness bank 4 offset 0x3FFE; file 7FFD = 0x08|2, receiver 7FFD before = 0x05 (concrete; symbolic port byte -> CBMC out of memory)
+// @assume receiver CPU not halted / no EI pending / no prefix pending and (128K) paging unlocked before the load (complements: KF-C14-1, KF-C14-2)
+// @outside RAM offsets outside the witness class (page transfers are whole-slice copies); display refresh; 7FFD values not enumerated
+// @stub ZXController::refresh_memory_dependent_devices -> no-op; ZXScreen::process_clocks -> no-op (display is C08's subject)
+// @replay solver-only
+#[kani::proof]
+#[kani::unwind(29)]
+#[kani::stub(ZXController::refresh_memory_dependent_devices, noop_refresh)]
+#[kani::stub(ZXScreen::process_clocks, noop_screen_clocks)]
+fn c14_sna128_load_bank4_paged2() {
+    c14_sna128_body(4, 2, 0x3FFE, 0x08, 0x05);
+}
+
+// @harness
+// @prop C14
+// @tier quick
+// @timeout 600
+// @fn sna::load; LoadableAsset::read_exact; Z80::pop_pc_from_stack; Z80::set_im; ZXColor::from_bits; ZXController::set_border_color; ZXController::write_7ffd; ZXMemory::ram_page_data_mut; Regs setters
+// @sym all 27 header bytes through the spec encoder, PC, TR-DOS flag byte, witness RAM value, receiver registers/border/PC/IFF1 and its byte in the witness bank; 7FFD byte concrete per query
+// @assert load returns Ok; every SNA item equals the abstract state, IFF1 = IFF2, PC = file PC, 7FFD latch/lock/map at 0000,4000,8000,C000/screen bank as the port byte says, RAM witness lands in the bank the layout assigns (also through the CPU map when paged), CPU neither halted nor EI-pending
+// @bound one load, 128K; witness bank 5 offset 0; file 7FFD = 0x30|0, receiver 7FFD before = 0x02 (concrete; symbolic port byte -> CBMC out of memory)
+// @assume receiver CPU not halted / no EI pending / no prefix pending and (128K) paging unlocked before the load (complements: KF-C14-1, KF-C14-2)
+// @outside RAM offsets outside the witness class (page transfers are whole-slice copies); display refresh; 7FFD values not enumerated
+// @stub ZXController::refresh_memory_dependent_devices -> no-op; ZXScreen::process_clocks -> no-op (display is C08's subject)
+// @replay solver-only
+#[kani::proof]
+#[kani::unwind(29)]
+#[kani::stub(ZXController::refresh_memory_dependent_devices, noop_refresh)]
+#[kani::stub(ZXScreen::process_clocks, noop_screen_clocks)]
+fn c14_sna128_load_bank5_paged0() {
+    c14_sna128_body(5, 0, 0, 0x30, 0x02);
+}
+
+// @harness
+// @prop C14
+// @tier quick
+// @timeout 600
+// @fn sna::load; LoadableAsset::read_exact; Z80::pop_pc_from_stack; Z80::set_im; ZXColor::from_bits; ZXController::set_border_color; ZXController::write_7ffd; ZXMemory::ram_page_data_mut; Regs setters
+// @sym all 27 header bytes through the spec encoder, PC, TR-DOS flag byte, witness RAM value, receiver registers/border/PC/IFF1 and its byte in the witness bank; 7FFD byte concrete per query
+// @assert load returns Ok; every SNA item equals the abstract state, IFF1 = IFF2, PC = file PC, 7FFD latch/lock/map at 0000,4000,8000,C000/screen bank as the port byte says, RAM witness lands in the bank the layout assigns (also through the CPU map when paged), CPU neither halted nor EI-pending
+// @bound one load, 128K; witness bank 6 offset 0x1AFF; file 7FFD = 0xC8|4, receiver 7FFD before = 0x00 (concrete; symbolic port byte -> CBMC out of memory)
+// @assume receiver CPU not halted / no EI pending / no prefix pending and (128K) paging unlocked before the load (complements: KF-C14-1, KF-C14-2)
+// @outside RAM offsets outside the witness class (page transfers are whole-slice copies); display refresh; 7FFD values not enumerated
+// @stub ZXController::refresh_memory_dependent_devices -> no-op; ZXScreen::process_clocks -> no-op (display is C08's subject)
+// @replay solver-only
+#[kani::proof]
+#[kani::unwind(29)]
+#[kani::stub(ZXController::refresh_memory_dependent_devices, noop_refresh)]
+#[kani::stub(ZXScreen::process_clocks, noop_screen_clocks)]
+fn c14_sna128_load_bank6_paged4() {
+    c14_sna128_body(6, 4, 0x1AFF, 0xC8, 0x00);
+}
+
+// @harness
+// @prop C14
+// @tier quick
+// @timeout 600
+// @fn sna::load; LoadableAsset::read_exact; Z80::pop_pc_from_stack; Z80::set_im; ZXColor::from_bits; ZXController::set_border_color; ZXController::write_7ffd; ZXMemory::ram_page_data_mut; Regs setters
+// @sym all 27 header bytes through the spec encoder, PC, TR-DOS flag byte, witness RAM value, receiver registers/border/PC/IFF1 and its byte in the witness bank; 7FFD byte concrete per query
+// @assert load returns Ok; every SNA item equals the abstract state, IFF1 = IFF2, PC = file PC, 7FFD latch/lock/map at 0000,4000,8000,C000/screen bank as the port byte says, RAM witness lands in the bank the layout assigns (also through the CPU map when paged), CPU neither halted nor EI-pending
+// @bound one load, 128K; witness bank 7 offset 0x3FFF; file 7FFD = 0x18|5, receiver 7FFD before = 0x11 (concrete; symbolic port byte -> CBMC out of memory)
+// @assume receiver CPU not halted / no EI pending / no prefix pending and (128K) paging unlocked before the load (complements: KF-C14-1, KF-C14-2)
+// @outside RAM offsets outside the witness class (page transfers are whole-slice copies); display refresh; 7FFD values not enumerated
+// @stub ZXController::refresh_memory_dependent_devices -> no-op; ZXScreen::process_clocks -> no-op (display is C08's subject)
+// @replay solver-only
+#[kani::proof]
+#[kani::unwind(29)]
+#[kani::stub(ZXController::refresh_memory_dependent_devices, noop_refresh)]
+#[kani::stub(ZXScreen::process_clocks, noop_screen_clocks)]
+fn c14_sna128_load_bank7_paged5() {
+    c14_sna128_body(7, 5, 0x3FFF, 0x18, 0x11);
+}
+
+// @harness
+// @prop C14
+// @tier thorough
+// @timeout 3600
+// @fn sna::load; LoadableAsset::read_exact; Z80::pop_pc_from_stack; Z80::set_im; ZXColor::from_bits; ZXController::set_border_color; ZXController::write_7ffd; ZXMemory::ram_page_data_mut; Regs setters
+// @sym all 27 header bytes through the spec encoder, PC, TR-DOS flag byte, witness RAM value, receiver registers/border/PC/IFF1 and its byte in the witness bank; 7FFD byte concrete per query
+// @assert load returns Ok; every SNA item equals the abstract state, IFF1 = IFF2, PC = file PC, 7FFD latch/lock/map at 0000,4000,8000,C000/screen bank as the port byte says, RAM witness lands in the bank the layout assigns (also through the CPU map when paged), CPU neither halted nor EI-pending
+// @bound 8 loads, 128K; witness bank 0 offset 0x3FFF; every paged bank with rotating high 7FFD bits
+// @assume receiver CPU not halted / no EI pending / no prefix pending and (128K) paging unlocked before the load (complements: KF-C14-1, KF-C14-2)
+// @outside RAM offsets outside the witness class (page transfers are whole-slice copies); display refresh; 7FFD values not enumerated
+// @stub ZXController::refresh_memory_dependent_devices -> no-op; ZXScreen::process_clocks -> no-op (display is C08's subject)
+// @replay solver-only
+#[kani::proof]
+#[kani::unwind(29)]
+#[kani::stub(ZXController::refresh_memory_dependent_devices, noop_refresh)]
+#[kani::stub(ZXScreen::process_clocks, noop_screen_clocks)]
+fn c14_sna128_load_bank0_all_paged() {
+    let his: [u8; 8] = [0x00, 0x08, 0x10, 0x20, 0x38, 0xC0, 0x28, 0x18];
+    let mut paged = 0u8;
+    while paged < 8 {
+        c14_sna128_body(0, paged, 0x3FFF, his[((paged + 1) & 7) as usize], his[((paged + 4) & 7) as usize] & 0x1F | ((paged + 5) & 7));
+        paged += 1;
+    }
+}
+
+// @harness
+// @prop C14
+// @tier thorough
+// @timeout 3600
+// @fn sna::load; LoadableAsset::read_exact; Z80::pop_pc_from_stack; Z80::set_im; ZXColor::from_bits; ZXController::set_border_color; ZXController::write_7ffd; ZXMemory::ram_page_data_mut; Regs setters
+// @sym all 27 header bytes through the spec encoder, PC, TR-DOS flag byte, witness RAM value, receiver registers/border/PC/IFF1 and its byte in the witness bank; 7FFD byte concrete per query
+// @assert load returns Ok; every SNA item equals the abstract state, IFF1 = IFF2, PC = file PC, 7FFD latch/lock/map at 0000,4000,8000,C000/screen bank as the port byte says, RAM witness lands in the bank the layout assigns (also through the CPU map when paged), CPU neither halted nor EI-pending
+// @bound 8 loads, 128K; witness bank 1 offset 0; every paged bank with rotating high 7FFD bits
+// @assume receiver CPU not halted / no EI pending / no prefix pending and (128K) paging unlocked before the load (complements: KF-C14-1, KF-C14-2)
+// @outside RAM offsets outside the witness class (page transfers are whole-slice copies); display refresh; 7FFD values not enumerated
+// @stub ZXController::refresh_memory_dependent_devices -> no-op; ZXScreen::process_clocks -> no-op (display is C08's subject)
+// @replay solver-only
+#[kani::proof]
+#[kani::unwind(29)]
+#[kani::stub(ZXController::refresh_memory_dependent_devices, noop_refresh)]
+#[kani::stub(ZXScreen::process_clocks, noop_screen_clocks)]
+fn c14_sna128_load_bank1_all_paged() {
+    let his: [u8; 8] = [0x00, 0x08, 0x10, 0x20, 0x38, 0xC0, 0x28, 0x18];
+    let mut paged = 0u8;
+    while paged < 8 {
+        c14_sna128_body(1, paged, 0, his[((paged + 2) & 7) as usize], his[((paged + 5) & 7) as usize] & 0x1F | ((paged + 5) & 7));
+        paged += 1;
+    }
+}
+
+// @harness
+// @prop C14
+// @tier thorough
+// @timeout 3600
+// @fn sna::load; LoadableAsset::read_exact; Z80::pop_pc_from_stack; Z80::set_im; ZXColor::from_bits; ZXController::set_border_color; ZXController::write_7ffd; ZXMemory::ram_page_data_mut; Regs setters
+// @sym all 27 header bytes through the spec encoder, PC, TR-DOS flag byte, witness RAM value, receiver registers/border/PC/IFF1 and its byte in the witness bank; 7FFD byte concrete per query
+// @assert load returns Ok; every SNA item equals the abstract state, IFF1 = IFF2, PC = file PC, 7FFD latch/lock/map at 0000,4000,8000,C000/screen bank as the port byte says, RAM witness lands in the bank the layout assigns (also through the CPU map when paged), CPU neither halted nor EI-pending
+// @bound 8 loads, 128K; witness bank 2 offset 1; every paged bank with rotating high 7FFD bits
+// @assume receiver CPU not halted / no EI pending / no prefix pending and (128K) paging unlocked before the load (complements: KF-C14-1, KF-C14-2)
+// @outside RAM offsets outside the witness class (page transfers are whole-slice copies); display refresh; 7FFD values not enumerated
+// @stub ZXController::refresh_memory_dependent_devices -> no-op; ZXScreen::process_clocks -> no-op (display is C08's subject)
+// @replay solver-only
+#[kani::proof]
+#[kani::unwind(29)]
+#[kani::stub(ZXController::refresh_memory_dependent_devices, noop_refresh)]
+#[kani::stub(ZXScreen::process_clocks, noop_screen_clocks)]
+fn c14_sna128_load_bank2_all_paged() {
+    let his: [u8; 8] = [0x00, 0x08, 0x10, 0x20, 0x38, 0xC0, 0x28, 0x18];
+    let mut paged = 0u8;
+    while paged < 8 {
+        c14_sna128_body(2, paged, 1, his[((paged + 3) & 7) as usize], his[((paged + 6) & 7) as usize] & 0x1F | ((paged + 5) & 7));
+        paged += 1;
+    }
+}
+
+// @harness
+// @prop C14
+// @tier thorough
+// @timeout 3600
+// @fn sna::load; LoadableAsset::read_exact; Z80::pop_pc_from_stack; Z80::set_im; ZXColor::from_bits; ZXController::set_border_color; ZXController::write_7ffd; ZXMemory::ram_page_data_mut; Regs setters
+// @sym all 27 header bytes through the spec encoder, PC, TR-DOS flag byte, witness RAM value, receiver registers/border/PC/IFF1 and its byte in the witness bank; 7FFD byte concrete per query
+// @assert load returns Ok; every SNA item equals the abstract state, IFF1 = IFF2, PC = file PC, 7FFD latch/lock/map at 0000,4000,8000,C000/screen bank as the port byte says, RAM witness lands in the bank the layout assigns (also through the CPU map when paged), CPU neither halted nor EI-pending
+// @bound 8 loads, 128K; witness bank 3 offset 0x1B00; every paged bank with rotating high 7FFD bits
+// @assume receiver CPU not halted / no EI pending / no prefix pending and (128K) paging unlocked before the load (complements: KF-C14-1, KF-C14-2)
+// @outside RAM offsets outside the witness class (page transfers are whole-slice copies); display refresh; 7FFD values not enumerated
+// @stub ZXController::refresh_memory_dependent_devices -> no-op; ZXScreen::process_clocks -> no-op (display is C08's subject)
+// @replay solver-only
+#[kani::proof]
+#[kani::unwind(29)]
+#[kani::stub(ZXController::refresh_memory_dependent_devices, noop_refresh)]
+#[kani::stub(ZXScreen::process_clocks, noop_screen_clocks)]
+fn c14_sna128_load_bank3_all_paged() {
+    let his: [u8; 8] = [0x00, 0x08, 0x10, 0x20, 0x38, 0xC0, 0x28, 0x18];
+    let mut paged = 0u8;
+    while paged < 8 {
+        c14_sna128_body(3, paged, 0x1B00, his[((paged + 4) & 7) as usize], his[((paged + 7) & 7) as usize] & 0x1F | ((paged + 5) & 7));
+        paged += 1;
+    }
+}
+
+// @harness
+// @prop C14
+// @tier thorough
+// @timeout 3600
+// @fn sna::load; LoadableAsset::read_exact; Z80::pop_pc_from_stack; Z80::set_im; ZXColor::from_bits; ZXController::set_border_color; ZXController::write_7ffd; ZXMemory::ram_page_data_mut; Regs setters
+// @sym all 27 header bytes through the spec encoder, PC, TR-DOS flag byte, witness RAM value, receiver registers/border/PC/IFF1 and its byte in the witness bank; 7FFD byte concrete per query
+// @assert load returns Ok; every SNA item equals the abstract state, IFF1 = IFF2, PC = file PC, 7FFD latch/lock/map at 0000,4000,8000,C000/screen bank as the port byte says, RAM witness lands in the bank the layout assigns (also through the CPU map when paged), CPU neither halted nor EI-pending
+// @bound 8 loads, 128K; witness bank 4 offset 0x1AFF; every paged bank with rotating high 7FFD bits
+// @assume receiver CPU not halted / no EI pending / no prefix pending and (128K) paging unlocked before the load (complements: KF-C14-1, KF-C14-2)
+// @outside RAM offsets outside the witness class (page transfers are whole-slice copies); display refresh; 7FFD values not enumerated
+// @stub ZXController::refresh_memory_dependent_devices -> no-op; ZXScreen::process_clocks -> no-op (display is C08's subject)
+// @replay solver-only
+#[kani::proof]
+#[kani::unwind(29)]
+#[kani::stub(ZXController::refresh_memory_dependent_devices, noop_refresh)]
+#[kani::stub(ZXScreen::process_clocks, noop_screen_clocks)]
+fn c14_sna128_load_bank4_all_paged() {
+    let his: [u8; 8] = [0x00, 0x08, 0x10, 0x20, 0x38, 0xC0, 0x28, 0x18];
+    let mut paged = 0u8;
+    while paged < 8 {
+        c14_sna128_body(4, paged, 0x1AFF, his[((paged + 5) & 7) as usize], his[((paged + 8) & 7) as usize] & 0x1F | ((paged + 5) & 7));
+        paged += 1;
+    }
+}
+
+// @harness
+// @prop C14
+// @tier thorough
+// @timeout 3600
+// @fn sna::load; LoadableAsset::read_exact; Z80::pop_pc_from_stack; Z80::set_im; ZXColor::from_bits; ZXController::set_border_color; ZXController::write_7ffd; ZXMemory::ram_page_data_mut; Regs setters
+// @sym all 27 header bytes through the spec encoder, PC, TR-DOS flag byte, witness RAM value, receiver registers/border/PC/IFF1 and its byte in the witness bank; 7FFD byte concrete per query
+// @assert load returns Ok; every SNA item equals the abstract state, IFF1 = IFF2, PC = file PC, 7FFD latch/lock/map at 0000,4000,8000,C000/screen bank as the port byte says, RAM witness lands in the bank the layout assigns (also through the CPU map when paged), CPU neither halted nor EI-pending
+// @bound 8 loads, 128K; witness bank 5 offset 0x3FFE; every paged bank with rotating high 7FFD bits
+// @assume receiver CPU not halted / no EI pending / no prefix pending and (128K) paging unlocked before the load (complements: KF-C14-1, KF-C14-2)
+// @outside RAM offsets outside the witness class (page transfers are whole-slice copies); display refresh; 7FFD values not enumerated
+// @stub ZXController::refresh_memory_dependent_devices -> no-op; ZXScreen::process_clocks -> no-op (display is C08's subject)
+// @replay solver-only
+#[kani::proof]
+#[kani::unwind(29)]
+#[kani::stub(ZXController::refresh_memory_dependent_devices, noop_refresh)]
+#[kani::stub(ZXScreen::process_clocks, noop_screen_clocks)]
+fn c14_sna128_load_bank5_all_paged() {
+    let his: [u8; 8] = [0x00, 0x08, 0x10, 0x20, 0x38, 0xC0, 0x28, 0x18];
+    let mut paged = 0u8;
+    while paged < 8 {
+        c14_sna128_body(5, paged, 0x3FFE, his[((paged + 6) & 7) as usize], his[((paged + 9) & 7) as usize] & 0x1F | ((paged + 5) & 7));
+        paged += 1;
+    }
+}
+
+// @harness
+// @prop C14
+// @tier thorough
+// @timeout 3600
+// @fn sna::load; LoadableAsset::read_exact; Z80::pop_pc_from_stack; Z80::set_im; ZXColor::from_bits; ZXController::set_border_color; ZXController::write_7ffd; ZXMemory::ram_page_data_mut; Regs setters
+// @sym all 27 header bytes through the spec encoder, PC, TR-DOS flag byte, witness RAM value, receiver registers/border/PC/IFF1 and its byte in the witness bank; 7FFD byte concrete per query
+// @assert load returns Ok; every SNA item equals the abstract state, IFF1 = IFF2, PC = file PC, 7FFD latch/lock/map at 0000,4000,8000,C000/screen bank as the port byte says, RAM witness lands in the bank the layout assigns (also through the CPU map when paged), CPU neither halted nor EI-pending
+// @bound 8 loads, 128K; witness bank 6 offset 0; every paged bank with rotating high 7FFD bits
+// @assume receiver CPU not halted / no EI pending / no prefix pending and (128K) paging unlocked before the load (complements: KF-C14-1, KF-C14-2)
+// @outside RAM offsets outside the witness class (page transfers are whole-slice copies); display refresh; 7FFD values not enumerated
+// @stub ZXController::refresh_memory_dependent_devices -> no-op; ZXScreen::process_clocks -> no-op (display is C08's subject)
+// @replay solver-only
+#[kani::proof]
+#[kani::unwind(29)]
+#[kani::stub(ZXController::refresh_memory_dependent_devices, noop_refresh)]
+#[kani::stub(ZXScreen::process_clocks, noop_screen_clocks)]
+fn c14_sna128_load_bank6_all_paged() {
+    let his: [u8; 8] = [0x00, 0x08, 0x10, 0x20, 0x38, 0xC0, 0x28, 0x18];
+    let mut paged = 0u8;
+    while paged < 8 {
+        c14_sna128_body(6, paged, 0, his[((paged + 7) & 7) as usize], his[((paged + 10) & 7) as usize] & 0x1F | ((paged + 5) & 7));
+        paged += 1;
+    }
+}
+
+// @harness
+// @prop C14
+// @tier thorough
+// @timeout 3600
+// @fn sna::load; LoadableAsset::read_exact; Z80::pop_pc_from_stack; Z80::set_im; ZXColor::from_bits; ZXController::set_border_color; ZXController::write_7ffd; ZXMemory::ram_page_data_mut; Regs setters
+// @sym all 27 header bytes through the spec encoder, PC, TR-DOS flag byte, witness RAM value, receiver registers/border/PC/IFF1 and its byte in the witness bank; 7FFD byte concrete per query
+// @assert load returns Ok; every SNA item equals the abstract state, IFF1 = IFF2, PC = file PC, 7FFD latch/lock/map at 0000,4000,8000,C000/screen bank as the port byte says, RAM witness lands in the bank the layout assigns (also through the CPU map when paged), CPU neither halted nor EI-pending
+// @bound 8 loads, 128K; witness bank 7 offset 0x3FFF; every paged bank with rotating high 7FFD bits
+// @assume receiver CPU not halted / no EI pending / no prefix pending and (128K) paging unlocked before the load (complements: KF-C14-1, KF-C14-2)
+// @outside RAM offsets outside the witness class (page transfers are whole-slice copies); display refresh; 7FFD values not enumerated
+// @stub ZXController::refresh_memory_dependent_devices -> no-op; ZXScreen::process_clocks -> no-op (display is C08's subject)
+// @replay solver-only
+#[kani::proof]
+#[kani::unwind(29)]
+#[kani::stub(ZXController::refresh_memory_dependent_devices, noop_refresh)]
+#[kani::stub(ZXScreen::process_clocks, noop_screen_clocks)]
+fn c14_sna128_load_bank7_all_paged() {
+    let his: [u8; 8] = [0x00, 0x08, 0x10, 0x20, 0x38, 0xC0, 0x28, 0x18];
+    let mut paged = 0u8;
+    while paged < 8 {
+        c14_sna128_body(7, paged, 0x3FFF, his[((paged + 8) & 7) as usize], his[((paged + 11) & 7) as usize] & 0x1F | ((paged + 5) & 7));
+        paged += 1;
+    }
+}
+
+// ================================================================================================
+// Known findings (expected to FAIL on the unchanged tree) -- each is the excluded region of the
+// main harnesses above, and nothing else.
+// ================================================================================================
+
+// @harness
+// @prop C13
+// @tier quick
+// @timeout 600
+// @expect known:KF-C13-1
+// @fn sna::save; Regs::get_h_alt; Regs::get_l_alt; sna::load
+// @sym every register of a 128K saver, restricted to HL' != HL
+// @assert after save -> load the receiver's HL' equals the saver's HL'
+// @bound 1 save + 1 load, 128K, 7FFD 0x00, no RAM witness
+// @stub ZXController::refresh_memory_dependent_devices -> no-op; ZXScreen::process_clocks -> no-op
+// @assume HL' != HL (the region excluded from the c13_rt* harnesses)
+// @replay solver-only
+#[kani::proof]
+#[kani::unwind(29)]
+#[kani::stub(ZXController::refresh_memory_dependent_devices, noop_refresh)]
+#[kani::stub(ZXScreen::process_clocks, noop_screen_clocks)]
+fn c13_known_hl_alt_not_saved() {
+    let a = any_abs();
+    kani::assume(a.hl_alt != a.hl);
+    let mut s = mk_emulator(ZXMachine::Sinclair128K, CTX);
+    set_abs(&mut s, &a);
+    let mut rec = SparseRecorder::new(NO_WITNESS);
+    let r = save(&mut s, &mut rec);
+    kani::assert(r.is_ok(), "c13.known.hl_alt.save_ok");
+    let asset = SparseAsset::new(rec.len, rec.head, rec.tail, NO_WITNESS, 0);
+    let mut b = receiver(ZXMachine::Sinclair128K, false, 0);
+    let r = load(&mut b, asset);
+    kani::assert(r.is_ok(), "c13.known.hl_alt.load_ok");
+    let got = read_abs(&mut b);
+    kani::assert(got.hl_alt == a.hl_alt, "c13.rt128.hl_alt");
+    kani::cover!(true, "reached");
+}
+
+// @harness
+// @prop C13
+// @tier quick
+// @timeout 600
+// @expect known:KF-C13-2
+// @fn sna::save; ScopedSnapshotState::enter; ScopedSnapshotState::drop; Z80::push_pc_to_stack
+// @sym every register and PC of a 48K saver; RAM byte just below SP
+// @assert the running machine's RAM byte at SP-1 is unchanged by save_snapshot
+// @bound 1 save, 48K, SP = 0x8101 (concrete), witness address 0x8100
+// @stub ZXController::refresh_memory_dependent_devices -> no-op; ZXScreen::process_clocks -> no-op
+// @assume witness = SP-1 (the region excluded from the c13_rt48* harnesses)
+// @replay solver-only
+#[kani::proof]
+#[kani::unwind(29)]
+#[kani::stub(ZXController::refresh_memory_dependent_devices, noop_refresh)]
+#[kani::stub(ZXScreen::process_clocks, noop_screen_clocks)]
+fn c13_known_save48_overwrites_below_sp() {
+    let _ = c13_save48(1, 0x100, SpMode::PcHi, true, true);
+    kani::cover!(true, "reached");
+}
+
+// @harness
+// @prop C13
+// @tier quick
+// @timeout 600
+// @expect known:KF-C13-3
+// @fn sna::save; ScopedSnapshotState::enter; ScopedSnapshotState::drop; Z80::push_pc_to_stack; Z80::pop_pc_from_stack
+// @sym every register and PC of a 48K saver
+// @assert the running machine's PC (and all other registers) are unchanged by save_snapshot
+// @bound 1 save, 48K, SP = 0x2000 (stack in ROM: outside the statement's round-trip proviso, inside its "saving leaves the running machine unchanged" sentence)
+// @stub ZXController::refresh_memory_dependent_devices -> no-op; ZXScreen::process_clocks -> no-op
+// @assume the two bytes below SP are ROM (the region excluded from the c13_rt48* harnesses by the proviso)
+// @replay solver-only
+#[kani::proof]
+#[kani::unwind(29)]
+#[kani::stub(ZXController::refresh_memory_dependent_devices, noop_refresh)]
+#[kani::stub(ZXScreen::process_clocks, noop_screen_clocks)]
+fn c13_known_save48_rom_stack_corrupts_pc() {
+    let _ = c13_save48(1, 0x100, SpMode::At(0x2000), true, false);
+    kani::cover!(true, "reached");
+}
+
+fn ctl_leak_body(e: &mut Emulator<VHost>) {
+    let c = cpu(e);
+    kani::assert(!c.halted, "c14.sna.not_halted_after_load");
+    kani::assert(!c.skip_interrupt, "c14.sna.no_ei_pending_after_load");
+    kani::assert(!has_pending_prefix(c), "c14.sna.no_prefix_pending_after_load");
+}
+
+// @harness
+// @prop C13
+// @tier quick
+// @timeout 600
+// @expect known:KF-C13-4
+// @fn sna::save; sna::load; Z80::emulate (to create and to observe a pending DD prefix)
+// @sym saver registers; receiver halted flag, EI-pending flag, pending-DD-prefix (created by really executing DD DD)
+// @assert after save -> load into a machine that was halted / had just executed EI / was between DD and its opcode, the CPU is running, takes interrupts and decodes the next opcode unprefixed
+// @bound 1 save + 1 load, 128K, 7FFD 0x00; one instruction step on a 4-byte bus to observe the prefix
+// @stub ZXController::refresh_memory_dependent_devices -> no-op; ZXScreen::process_clocks -> no-op
+// @assume receiver control state dirty (the region excluded from the c13_rt* harnesses)
+// @replay solver-only
+#[kani::proof]
+#[kani::unwind(29)]
+#[kani::stub(ZXController::refresh_memory_dependent_devices, noop_refresh)]
+#[kani::stub(ZXScreen::process_clocks, noop_screen_clocks)]
+fn c13_known_receiver_cpu_state_survives_load() {
+    let a = any_abs();
+    let mut s = mk_emulator(ZXMachine::Sinclair128K, CTX);
+    set_abs(&mut s, &a);
+    let mut rec = SparseRecorder::new(NO_WITNESS);
+    let _ = save(&mut s, &mut rec);
+    let asset = SparseAsset::new(rec.len, rec.head, rec.tail, NO_WITNESS, 0);
+    let mut b = receiver(ZXMachine::Sinclair128K, true, 0);
+    let r = load(&mut b, asset);
+    kani::assert(r.is_ok(), "c13.known.ctl.load_ok");
+    ctl_leak_body(&mut b);
+    kani::cover!(true, "reached");
+}
+
+fn locked_receiver_body(file_latch: u8, receiver_latch: u8) {
+    let a = any_abs();
+    let pc: u16 = kani::any();
+    let [pcl, pch] = pc.to_le_bytes();
+    let paged = file_latch & 7;
+    let asset = SparseAsset::new(spec_len128(paged), spec_header(&a, 0), [pcl, pch, file_latch, 0], NO_WITNESS, 0);
+    let mut b = receiver(ZXMachine::Sinclair128K, false, receiver_latch);
+    let r = load(&mut b, asset);
+    kani::assert(r.is_ok(), "c14.sna128.accepted");
+    let cb = controller(&mut b);
+    kani::assert(cb.read_7ffd() == file_latch, "c14.sna128.latch");
+    kani::assert(ch::paging_enabled(cb) == (file_latch & 0x20 == 0), "c14.sna128.lock");
+    kani::assert(cb.memory.get_page(0xC000) == crate::zx::memory::Page::Ram(paged), "c14.sna128.map_c000");
+}
+
+// @harness
+// @prop C13
+// @tier quick
+// @timeout 600
+// @expect known:KF-C13-5
+// @fn sna::load; ZXController::write_7ffd
+// @sym header, PC
+// @assert loading a 128K snapshot (7FFD = 0x03, as sna::save writes it for a machine with bank 3 paged) into a machine whose paging is locked (it wrote 0x21 to 7FFD earlier) restores latch, lock and the bank at C000
+// @bound 1 load, 128K, concrete 7FFD values
+// @stub ZXController::refresh_memory_dependent_devices -> no-op; ZXScreen::process_clocks -> no-op
+// @assume receiver paging locked (the region excluded from the c13_rt128* harnesses)
+// @replay solver-only
+#[kani::proof]
+#[kani::unwind(29)]
+#[kani::stub(ZXController::refresh_memory_dependent_devices, noop_refresh)]
+#[kani::stub(ZXScreen::process_clocks, noop_screen_clocks)]
+fn c13_known_locked_receiver_keeps_old_paging() {
+    locked_receiver_body(0x03, 0x21);
+    kani::cover!(true, "reached");
+}
+
+// @harness
+// @prop C14
+// @tier quick
+// @timeout 600
+// @expect known:KF-C14-1
+// @fn sna::load; Z80::emulate (to create and to observe a pending DD prefix)
+// @sym header through the spec encoder; receiver halted flag, EI-pending flag, pending DD prefix (created by really executing DD DD)
+// @assert after loading a well-formed 48K SNA the CPU is not halted, has no EI pending and decodes the next opcode unprefixed, whatever the receiver was doing
+// @bound 1 load, 48K, SP 0x8000; one instruction step on a 4-byte bus to observe the prefix
+// @stub ZXController::refresh_memory_dependent_devices -> no-op; ZXScreen::process_clocks -> no-op
+// @assume receiver control state dirty (the region excluded from the c14_sna* harnesses)
+// @replay solver-only
+#[kani::proof]
+#[kani::unwind(29)]
+#[kani::stub(ZXController::refresh_memory_dependent_devices, noop_refresh)]
+#[kani::stub(ZXScreen::process_clocks, noop_screen_clocks)]
+fn c14_known_sna_receiver_cpu_state_survives() {
+    let mut a = any_abs();
+    a.sp = 0x8000;
+    let asset = SparseAsset::new(SPEC_SNA48_LEN, spec_header(&a, 0), [0; 4], NO_WITNESS, 0);
+    let mut b = receiver(ZXMachine::Sinclair48K, true, 0);
+    let r = load(&mut b, asset);
+    kani::assert(r.is_ok(), "c14.sna48.accepted");
+    ctl_leak_body(&mut b);
+    kani::cover!(true, "reached");
+}
+
+// @harness
+// @prop C14
+// @tier quick
+// @timeout 600
+// @expect known:KF-C14-2
+// @fn sna::load; ZXController::write_7ffd
+// @sym header, PC
+// @assert a well-formed 128K SNA with port byte 0x14 loaded into a machine with locked paging (7FFD = 0x26 written earlier) yields latch 0x14, paging unlocked, bank 4 at C000
+// @bound 1 load, 128K, concrete 7FFD values
+// @stub ZXController::refresh_memory_dependent_devices -> no-op; ZXScreen::process_clocks -> no-op
+// @assume receiver paging locked (the region excluded from the c14_sna128* harnesses)
+// @replay solver-only
+#[kani::proof]
+#[kani::unwind(29)]
+#[kani::stub(ZXController::refresh_memory_dependent_devices, noop_refresh)]
+#[kani::stub(ZXScreen::process_clocks, noop_screen_clocks)]
+fn c14_known_sna128_into_locked_machine() {
+    locked_receiver_body(0x14, 0x26);
+    kani::cover!(true, "reached");
+}
+
+// @harness
+// @prop C14
+// @tier quick
+// @timeout 600
+// @expect known:KF-C14-3
+// @fn sna::load
+// @sym header through the spec encoder
+// @assert a 48K SNA (49179 bytes) offered to a 128K machine is rejected with Err
+// @bound 1 load
+// @stub ZXController::refresh_memory_dependent_devices -> no-op; ZXScreen::process_clocks -> no-op
+// @replay solver-only
+#[kani::proof]
+#[kani::unwind(29)]
+#[kani::stub(ZXController::refresh_memory_dependent_devices, noop_refresh)]
+#[kani::stub(ZXScreen::process_clocks, noop_screen_clocks)]
+fn c14_known_sna48_into_128k_accepted() {
+    let a = any_abs();
+    let asset = SparseAsset::new(SPEC_SNA48_LEN, spec_header(&a, 0), [0; 4], NO_WITNESS, 0);
+    let mut b = receiver(ZXMachine::Sinclair128K, false, 0);
+    let r = load(&mut b, asset);
+    kani::assert(r.is_err(), "c14.sna.model_mismatch_rejected");
+    kani::cover!(true, "reached");
+}
+
+// @harness
+// @prop C15
+// @tier quick
+// @timeout 600
+// @expect known:KF-C15-2
+// @fn sna::load; ZXMemory::ram_page_data_mut
+// @sym header through the spec encoder, PC, port byte
+// @assert a 128K SNA (131103 bytes) offered to a 48K machine is rejected with Err (in particular: no panic)
+// @bound 1 load
+// @stub ZXController::refresh_memory_dependent_devices -> no-op; ZXScreen::process_clocks -> no-op
+// @replay solver-only
+#[kani::proof]
+#[kani::unwind(29)]
+#[kani::stub(ZXController::refresh_memory_dependent_devices, noop_refresh)]
+#[kani::stub(ZXScreen::process_clocks, noop_screen_clocks)]
+fn c15_known_sna128_into_48k_panics() {
+    let a = any_abs();
+    let asset = SparseAsset::new(SPEC_SNA128_LEN, spec_header(&a, 0), [kani::any(), kani::any(), kani::any(), 0], NO_WITNESS, 0);
+    let mut b = receiver(ZXMachine::Sinclair48K, false, 0);
+    let r = load(&mut b, asset);
+    kani::assert(r.is_err(), "c15.sna.model_mismatch_is_err_not_panic");
+    kani::cover!(true, "reached");
+}
+
+// @harness
+// @prop C14
+// @tier quick
+// @timeout 600
+// @expect known:KF-C14-3
+// @fn sna::load; ZXMemory::ram_page_data_mut
+// @sym header through the spec encoder, PC, port byte
+// @assert a 128K SNA (131103 bytes) offered to a 48K machine is rejected with Err
+// @bound 1 load
+// @stub ZXController::refresh_memory_dependent_devices -> no-op; ZXScreen::process_clocks -> no-op
+// @replay solver-only
+#[kani::proof]
+#[kani::unwind(29)]
+#[kani::stub(ZXController::refresh_memory_dependent_devices, noop_refresh)]
+#[kani::stub(ZXScreen::process_clocks, noop_screen_clocks)]
+fn c14_known_sna128_into_48k_not_rejected() {
+    let a = any_abs();
+    let asset = SparseAsset::new(SPEC_SNA128_LEN, spec_header(&a, 0), [kani::any(), kani::any(), kani::any(), 0], NO_WITNESS, 0);
+    let mut b = receiver(ZXMachine::Sinclair48K, false, 0);
+    let r = load(&mut b, asset);
+    kani::assert(r.is_err(), "c14.sna.model_mismatch_rejected");
+    kani::cover!(true, "reached");
+}
+
+// ================================================================================================
+// C15 / sna::load is total
+// ================================================================================================
+
+/// post-load sanity: the memory map still names pages that exist (what `emulate_frames` needs)
+fn c15_post_state_ok(e: &mut Emulator<VHost>, machine: ZXMachine) -> bool {
+    let c = controller(e);
+    let ram_pages: u8 = if machine == ZXMachine::Sinclair48K { 3 } else { 8 };
+    let rom_pages: u8 = if machine == ZXMachine::Sinclair48K { 1 } else { 2 };
+    let mut ok = true;
+    let mut i = 0u16;
+    while i < 4 {
+        ok &= match c.memory.get_page(i * 0x4000) {
+            crate::zx::memory::Page::Ram(p) => p < ram_pages,
+            crate::zx::memory::Page::Rom(p) => p < rom_pages,
+        };
+        i += 1;
+    }
+    ok
+}
+
+/// Outcome counters of a batch of loads (for the reachability witnesses).
+#[derive(Clone, Copy)]
+pub(crate) struct Tally {
+    pub ok: u8,
+    pub err: u8,
+    pub fault_err: u8,
+}
+
+/// One `sna::load` of a file of `size` bytes whose 27+4 kept bytes are arbitrary, with the given
+/// (concrete) fault.  `latch` fixes the 128K port byte (see the C14 notes), None = arbitrary.
+fn c15_sna_once(machine: ZXMachine, size: usize, latch: Option<u8>, fault: Fault, t: &mut Tally) {
+    let head: [u8; 27] = kani::any();
+    kani::assume(head[25] & 3 != 3);
+    let tail: [u8; 4] = [kani::any(), kani::any(), latch.unwrap_or(kani::any()), kani::any()];
+    let mut asset = SparseAsset::new(size, head, tail, NO_WITNESS, 0);
+    asset.fault = fault;
+    let mut e = mk_emulator(machine, CTX);
+    let r = load(&mut e, &mut asset);
+    kani::assert(asset.max_req <= 16384, "c15.sna.read_requests_bounded_by_page_size");
+    kani::assert(asset.calls <= 24, "c15.sna.bounded_number_of_asset_calls");
+    kani::assert(c15_post_state_ok(&mut e, machine), "c15.sna.post_state_emulatable");
+    if asset.fault_hit {
+        // an Err or premature EOF from the asset must surface; a short read must not by itself fail the load
+        if fault.kind != 1 {
+            kani::assert(r.is_err(), "c15.sna.asset_failure_surfaces_as_err");
+        }
+    }
+    if r.is_ok() {
+        t.ok += 1;
+    } else {
+        t.err += 1;
+        if asset.fault_hit {
+            t.fault_err += 1;
+        }
+    }
+}
+
+/// one load per listed fault `(asset call index, kind)` (kind 0: Err, 1: short read of `short_n`
+/// bytes -- for a seek: Err --, 2: premature Ok(0)), then optionally one fault-free load
+fn c15_sna_list(machine: ZXMachine, size: usize, latch: Option<u8>, faults: &[(u8, u8)], short_n: usize, fault_free: bool) -> Tally {
+    let mut t = Tally { ok: 0, err: 0, fault_err: 0 };
+    let mut i = 0;
+    while i < faults.len() {
+        c15_sna_once(machine, size, latch, Fault { at: faults[i].0, kind: faults[i].1, n: short_n }, &mut t);
+        i += 1;
+    }
+    if fault_free {
+        c15_sna_once(machine, size, latch, FAULT_NONE, &mut t);
+    }
+    t
+}
+
+// Asset call sequences of sna::load (S = seek, R = read_exact -> one read when not short):
+//   48K layout : S S R(hdr) R R R                                         (calls 0..5)
+//   128K layout: S S R(hdr) S R(tail) S R R R S R R R R R [R]             (calls 0..14, 15 with bank 2/5 paged)
+
+// @harness
+// @prop C15
+// @tier quick
+// @timeout 900
+// @fn sna::load; LoadableAsset::read_exact; Z80::set_im; ZXColor::from_bits; ZXController::write_7ffd; ZXMemory::ram_page_data_mut; Z80::pop_pc_from_stack
+// @sym all 27 header bytes and the 4 bytes at 49179 raw (no encoder), fresh per load; fault position and kind enumerated concretely (a symbolic fault makes the file position symbolic and CBMC runs out of memory)
+// @assert no panic / overflow / failed unwrap (Kani checks), every loop terminates within the unwinding bound, asset calls <= 24, largest read request <= 16384 bytes (sna::load allocates nothing), an asset Err/EOF surfaces as Err, memory map afterwards names existing pages
+// @bound 48K machine, 49179-byte file; Err at calls 0,1,2; 1-byte short header read; then no fault
+// @assume header byte 25 & 3 != 3 (complement panics: KF-C15-1)
+// @outside RAM page contents (whole-slice copies, sparse asset leaves them untouched); 128K port byte values other than the enumerated ones; emulating whole further frames (C01/C04 show a step cannot panic from any state under the map invariant asserted here)
+// @stub ZXController::refresh_memory_dependent_devices -> no-op; ZXScreen::process_clocks -> no-op
+// @replay solver-only
+#[kani::proof]
+#[kani::unwind(29)]
+#[kani::stub(ZXController::refresh_memory_dependent_devices, noop_refresh)]
+#[kani::stub(ZXScreen::process_clocks, noop_screen_clocks)]
+fn c15_sna48_faults_seek_header() {
+    let t = c15_sna_list(ZXMachine::Sinclair48K, 49179, None, &[(0, 0), (1, 0), (2, 0), (2, 1)], 1, true);
+    kani::cover!(t.ok >= 1 && t.fault_err >= 1, "fault-free load succeeds, injected faults surface as Err");
+}
+
+// @harness
+// @prop C15
+// @tier quick
+// @timeout 900
+// @fn sna::load; LoadableAsset::read_exact; Z80::set_im; ZXColor::from_bits; ZXController::write_7ffd; ZXMemory::ram_page_data_mut; Z80::pop_pc_from_stack
+// @sym all 27 header bytes and the 4 bytes at 49179 raw (no encoder), fresh per load; fault position and kind enumerated concretely (a symbolic fault makes the file position symbolic and CBMC runs out of memory)
+// @assert no panic / overflow / failed unwrap (Kani checks), every loop terminates within the unwinding bound, asset calls <= 24, largest read request <= 16384 bytes (sna::load allocates nothing), an asset Err/EOF surfaces as Err, memory map afterwards names existing pages
+// @bound 48K machine, 49179-byte file; Err at calls 3,4,5; 1-byte short page read at call 4
+// @assume header byte 25 & 3 != 3 (complement panics: KF-C15-1)
+// @outside RAM page contents (whole-slice copies, sparse asset leaves them untouched); 128K port byte values other than the enumerated ones; emulating whole further frames (C01/C04 show a step cannot panic from any state under the map invariant asserted here)
+// @stub ZXController::refresh_memory_dependent_devices -> no-op; ZXScreen::process_clocks -> no-op
+// @replay solver-only
+#[kani::proof]
+#[kani::unwind(29)]
+#[kani::stub(ZXController::refresh_memory_dependent_devices, noop_refresh)]
+#[kani::stub(ZXScreen::process_clocks, noop_screen_clocks)]
+fn c15_sna48_faults_pages() {
+    let t = c15_sna_list(ZXMachine::Sinclair48K, 49179, None, &[(3, 0), (4, 0), (5, 0), (4, 1)], 1, false);
+    kani::cover!(t.fault_err >= 1, "injected faults surface as Err");
+}
+
+// @harness
+// @prop C15
+// @tier quick
+// @timeout 900
+// @fn sna::load; LoadableAsset::read_exact; Z80::set_im; ZXColor::from_bits; ZXController::write_7ffd; ZXMemory::ram_page_data_mut; Z80::pop_pc_from_stack
+// @sym all 27 header bytes and the 4 bytes at 49179 raw (no encoder), fresh per load; fault position and kind enumerated concretely (a symbolic fault makes the file position symbolic and CBMC runs out of memory)
+// @assert no panic / overflow / failed unwrap (Kani checks), every loop terminates within the unwinding bound, asset calls <= 24, largest read request <= 16384 bytes (sna::load allocates nothing), an asset Err/EOF surfaces as Err, memory map afterwards names existing pages
+// @bound 128K machine, 49179-byte file (taken as 48K layout); Err at calls 2 and 5, short read at call 3, then no fault
+// @assume header byte 25 & 3 != 3 (complement panics: KF-C15-1)
+// @outside RAM page contents (whole-slice copies, sparse asset leaves them untouched); 128K port byte values other than the enumerated ones; emulating whole further frames (C01/C04 show a step cannot panic from any state under the map invariant asserted here)
+// @stub ZXController::refresh_memory_dependent_devices -> no-op; ZXScreen::process_clocks -> no-op
+// @replay solver-only
+#[kani::proof]
+#[kani::unwind(29)]
+#[kani::stub(ZXController::refresh_memory_dependent_devices, noop_refresh)]
+#[kani::stub(ZXScreen::process_clocks, noop_screen_clocks)]
+fn c15_sna128_machine_48k_sized_file() {
+    let t = c15_sna_list(ZXMachine::Sinclair128K, 49179, None, &[(2, 0), (5, 0), (3, 1)], 1, true);
+    kani::cover!(t.ok >= 1 && t.fault_err >= 1, "fault-free load succeeds, injected faults surface as Err");
+}
+
+// @harness
+// @prop C15
+// @tier quick
+// @timeout 900
+// @fn sna::load; LoadableAsset::read_exact; Z80::set_im; ZXColor::from_bits; ZXController::write_7ffd; ZXMemory::ram_page_data_mut; Z80::pop_pc_from_stack
+// @sym all 27 header bytes and the 4 bytes at 49179 raw (no encoder), fresh per load; fault position and kind enumerated concretely (a symbolic fault makes the file position symbolic and CBMC runs out of memory)
+// @assert no panic / overflow / failed unwrap (Kani checks), every loop terminates within the unwinding bound, asset calls <= 24, largest read request <= 16384 bytes (sna::load allocates nothing), an asset Err/EOF surfaces as Err, memory map afterwards names existing pages
+// @bound 128K machine, 131103-byte file, port byte 0x13; Err at calls 0..4, then no fault
+// @assume header byte 25 & 3 != 3 (complement panics: KF-C15-1)
+// @outside RAM page contents (whole-slice copies, sparse asset leaves them untouched); 128K port byte values other than the enumerated ones; emulating whole further frames (C01/C04 show a step cannot panic from any state under the map invariant asserted here)
+// @stub ZXController::refresh_memory_dependent_devices -> no-op; ZXScreen::process_clocks -> no-op
+// @replay solver-only
+#[kani::proof]
+#[kani::unwind(29)]
+#[kani::stub(ZXController::refresh_memory_dependent_devices, noop_refresh)]
+#[kani::stub(ZXScreen::process_clocks, noop_screen_clocks)]
+fn c15_sna128_faults_calls_0_4() {
+    let t = c15_sna_list(ZXMachine::Sinclair128K, 131103, Some(0x13), &[(0, 0), (1, 0), (2, 0), (3, 0), (4, 0)], 1, true);
+    kani::cover!(t.ok >= 1 && t.fault_err >= 1, "fault-free load succeeds, injected faults surface as Err");
+}
+
+// @harness
+// @prop C15
+// @tier quick
+// @timeout 900
+// @fn sna::load; LoadableAsset::read_exact; Z80::set_im; ZXColor::from_bits; ZXController::write_7ffd; ZXMemory::ram_page_data_mut; Z80::pop_pc_from_stack
+// @sym all 27 header bytes and the 4 bytes at 49179 raw (no encoder), fresh per load; fault position and kind enumerated concretely (a symbolic fault makes the file position symbolic and CBMC runs out of memory)
+// @assert no panic / overflow / failed unwrap (Kani checks), every loop terminates within the unwinding bound, asset calls <= 24, largest read request <= 16384 bytes (sna::load allocates nothing), an asset Err/EOF surfaces as Err, memory map afterwards names existing pages
+// @bound 128K machine, 131103-byte file, port byte 0x2C; Err at calls 5..9
+// @assume header byte 25 & 3 != 3 (complement panics: KF-C15-1)
+// @outside RAM page contents (whole-slice copies, sparse asset leaves them untouched); 128K port byte values other than the enumerated ones; emulating whole further frames (C01/C04 show a step cannot panic from any state under the map invariant asserted here)
+// @stub ZXController::refresh_memory_dependent_devices -> no-op; ZXScreen::process_clocks -> no-op
+// @replay solver-only
+#[kani::proof]
+#[kani::unwind(29)]
+#[kani::stub(ZXController::refresh_memory_dependent_devices, noop_refresh)]
+#[kani::stub(ZXScreen::process_clocks, noop_screen_clocks)]
+fn c15_sna128_faults_calls_5_9() {
+    let t = c15_sna_list(ZXMachine::Sinclair128K, 131103, Some(0x2C), &[(5, 0), (6, 0), (7, 0), (8, 0), (9, 0)], 1, false);
+    kani::cover!(t.fault_err >= 1, "injected faults surface as Err");
+}
+
+// @harness
+// @prop C15
+// @tier quick
+// @timeout 900
+// @fn sna::load; LoadableAsset::read_exact; Z80::set_im; ZXColor::from_bits; ZXController::write_7ffd; ZXMemory::ram_page_data_mut; Z80::pop_pc_from_stack
+// @sym all 27 header bytes and the 4 bytes at 49179 raw (no encoder), fresh per load; fault position and kind enumerated concretely (a symbolic fault makes the file position symbolic and CBMC runs out of memory)
+// @assert no panic / overflow / failed unwrap (Kani checks), every loop terminates within the unwinding bound, asset calls <= 24, largest read request <= 16384 bytes (sna::load allocates nothing), an asset Err/EOF surfaces as Err, memory map afterwards names existing pages
+// @bound 128K machine, 131103-byte file, port byte 0x06; Err at calls 10..14
+// @assume header byte 25 & 3 != 3 (complement panics: KF-C15-1)
+// @outside RAM page contents (whole-slice copies, sparse asset leaves them untouched); 128K port byte values other than the enumerated ones; emulating whole further frames (C01/C04 show a step cannot panic from any state under the map invariant asserted here)
+// @stub ZXController::refresh_memory_dependent_devices -> no-op; ZXScreen::process_clocks -> no-op
+// @replay solver-only
+#[kani::proof]
+#[kani::unwind(29)]
+#[kani::stub(ZXController::refresh_memory_dependent_devices, noop_refresh)]
+#[kani::stub(ZXScreen::process_clocks, noop_screen_clocks)]
+fn c15_sna128_faults_calls_10_14() {
+    let t = c15_sna_list(ZXMachine::Sinclair128K, 131103, Some(0x06), &[(10, 0), (11, 0), (12, 0), (13, 0), (14, 0)], 1, false);
+    kani::cover!(t.fault_err >= 1, "injected faults surface as Err");
+}
+
+// @harness
+// @prop C15
+// @tier quick
+// @timeout 900
+// @fn sna::load; LoadableAsset::read_exact; Z80::set_im; ZXColor::from_bits; ZXController::write_7ffd; ZXMemory::ram_page_data_mut; Z80::pop_pc_from_stack
+// @sym all 27 header bytes and the 4 bytes at 49179 raw (no encoder), fresh per load; fault position and kind enumerated concretely (a symbolic fault makes the file position symbolic and CBMC runs out of memory)
+// @assert no panic / overflow / failed unwrap (Kani checks), every loop terminates within the unwinding bound, asset calls <= 24, largest read request <= 16384 bytes (sna::load allocates nothing), an asset Err/EOF surfaces as Err, memory map afterwards names existing pages
+// @bound 128K machine, 131103-byte file, port byte 0x31; short reads at the header (1 byte), secondary header (1 byte), a head bank and a tail bank
+// @assume header byte 25 & 3 != 3 (complement panics: KF-C15-1)
+// @outside RAM page contents (whole-slice copies, sparse asset leaves them untouched); 128K port byte values other than the enumerated ones; emulating whole further frames (C01/C04 show a step cannot panic from any state under the map invariant asserted here)
+// @stub ZXController::refresh_memory_dependent_devices -> no-op; ZXScreen::process_clocks -> no-op
+// @replay solver-only
+#[kani::proof]
+#[kani::unwind(29)]
+#[kani::stub(ZXController::refresh_memory_dependent_devices, noop_refresh)]
+#[kani::stub(ZXScreen::process_clocks, noop_screen_clocks)]
+fn c15_sna128_short_reads() {
+    let t = c15_sna_list(ZXMachine::Sinclair128K, 131103, Some(0x31), &[(2, 1), (4, 1), (7, 1), (11, 1)], 1, false);
+    kani::assert(t.ok == 4, "c15.sna.short_reads_do_not_fail_the_load");
+    kani::cover!(t.ok == 4, "short reads are retried");
+}
+
+// @harness
+// @prop C15
+// @tier quick
+// @timeout 900
+// @fn sna::load; LoadableAsset::read_exact; Z80::set_im; ZXColor::from_bits; ZXController::write_7ffd; ZXMemory::ram_page_data_mut; Z80::pop_pc_from_stack
+// @sym all 27 header bytes and the 4 bytes at 49179 raw (no encoder), fresh per load; fault position and kind enumerated concretely (a symbolic fault makes the file position symbolic and CBMC runs out of memory)
+// @assert no panic / overflow / failed unwrap (Kani checks), every loop terminates within the unwinding bound, asset calls <= 24, largest read request <= 16384 bytes (sna::load allocates nothing), an asset Err/EOF surfaces as Err, memory map afterwards names existing pages
+// @bound 128K machine; sizes 49180 (secondary header cut), 131102 (last bank one byte short), 131103 with bank 2 paged (file one bank short), 147488 (one byte too many, bank 5 paged); no injected fault
+// @assume header byte 25 & 3 != 3 (complement panics: KF-C15-1)
+// @outside RAM page contents (whole-slice copies, sparse asset leaves them untouched); 128K port byte values other than the enumerated ones; emulating whole further frames (C01/C04 show a step cannot panic from any state under the map invariant asserted here)
+// @stub ZXController::refresh_memory_dependent_devices -> no-op; ZXScreen::process_clocks -> no-op
+// @replay solver-only
+#[kani::proof]
+#[kani::unwind(29)]
+#[kani::stub(ZXController::refresh_memory_dependent_devices, noop_refresh)]
+#[kani::stub(ZXScreen::process_clocks, noop_screen_clocks)]
+fn c15_sna128_truncated_and_oversized() {
+    let mut t = Tally { ok: 0, err: 0, fault_err: 0 };
+    c15_sna_once(ZXMachine::Sinclair128K, 49180, Some(0x00), FAULT_NONE, &mut t);
+    c15_sna_once(ZXMachine::Sinclair128K, 131102, Some(0x07), FAULT_NONE, &mut t);
+    c15_sna_once(ZXMachine::Sinclair128K, 131103, Some(0x02), FAULT_NONE, &mut t);
+    kani::assert(t.ok == 0 && t.err == 3, "c15.sna.truncated_files_are_err");
+    c15_sna_once(ZXMachine::Sinclair128K, 147488, Some(0x05), FAULT_NONE, &mut t);
+    kani::cover!(t.err == 3, "three truncated files rejected");
+}
+
+// @harness
+// @prop C15
+// @tier thorough
+// @timeout 3600
+// @fn sna::load; LoadableAsset::read_exact; Z80::set_im; ZXColor::from_bits; ZXController::write_7ffd; ZXMemory::ram_page_data_mut; Z80::pop_pc_from_stack
+// @sym all 27 header bytes and the 4 bytes at 49179 raw (no encoder), fresh per load; fault position and kind enumerated concretely (a symbolic fault makes the file position symbolic and CBMC runs out of memory)
+// @assert no panic / overflow / failed unwrap (Kani checks), every loop terminates within the unwinding bound, asset calls <= 24, largest read request <= 16384 bytes (sna::load allocates nothing), an asset Err/EOF surfaces as Err, memory map afterwards names existing pages
+// @bound 48K machine, 49179-byte file; premature Ok(0) at calls 2..5, 26-byte short read at calls 2..5
+// @assume header byte 25 & 3 != 3 (complement panics: KF-C15-1)
+// @outside RAM page contents (whole-slice copies, sparse asset leaves them untouched); 128K port byte values other than the enumerated ones; emulating whole further frames (C01/C04 show a step cannot panic from any state under the map invariant asserted here)
+// @stub ZXController::refresh_memory_dependent_devices -> no-op; ZXScreen::process_clocks -> no-op
+// @replay solver-only
+#[kani::proof]
+#[kani::unwind(29)]
+#[kani::stub(ZXController::refresh_memory_dependent_devices, noop_refresh)]
+#[kani::stub(ZXScreen::process_clocks, noop_screen_clocks)]
+fn c15_sna48_eof_and_short26() {
+    let t = c15_sna_list(ZXMachine::Sinclair48K, 49179, None, &[(2, 2), (3, 2), (4, 2), (5, 2), (2, 1), (3, 1), (4, 1), (5, 1)], 26, true);
+    kani::cover!(t.ok >= 1 && t.fault_err >= 1, "fault-free load succeeds, injected faults surface as Err");
+}
+
+// @harness
+// @prop C15
+// @tier thorough
+// @timeout 7200
+// @fn sna::load; LoadableAsset::read_exact; Z80::set_im; ZXColor::from_bits; ZXController::write_7ffd; ZXMemory::ram_page_data_mut; Z80::pop_pc_from_stack
+// @sym all 27 header bytes and the 4 bytes at 49179 raw (no encoder), fresh per load; fault position and kind enumerated concretely (a symbolic fault makes the file position symbolic and CBMC runs out of memory)
+// @assert no panic / overflow / failed unwrap (Kani checks), every loop terminates within the unwinding bound, asset calls <= 24, largest read request <= 16384 bytes (sna::load allocates nothing), an asset Err/EOF surfaces as Err, memory map afterwards names existing pages
+// @bound 128K machine, 147487-byte file, port byte 0x05 / 0x3A; Err at calls 0..15; premature Ok(0) and 16383-byte short reads at every read call
+// @assume header byte 25 & 3 != 3 (complement panics: KF-C15-1)
+// @outside RAM page contents (whole-slice copies, sparse asset leaves them untouched); 128K port byte values other than the enumerated ones; emulating whole further frames (C01/C04 show a step cannot panic from any state under the map invariant asserted here)
+// @stub ZXController::refresh_memory_dependent_devices -> no-op; ZXScreen::process_clocks -> no-op
+// @replay solver-only
+#[kani::proof]
+#[kani::unwind(29)]
+#[kani::stub(ZXController::refresh_memory_dependent_devices, noop_refresh)]
+#[kani::stub(ZXScreen::process_clocks, noop_screen_clocks)]
+fn c15_sna128_dup_bank_faults() {
+    let t = c15_sna_list(ZXMachine::Sinclair128K, 147487, Some(0x05), &[(0, 0), (1, 0), (2, 0), (3, 0), (4, 0), (5, 0), (6, 0), (7, 0), (8, 0), (9, 0), (10, 0), (11, 0), (12, 0), (13, 0), (14, 0), (15, 0)], 1, true);
+    let _ = c15_sna_list(ZXMachine::Sinclair128K, 147487, Some(0x3A), &[(2, 2), (4, 2), (6, 2), (7, 2), (8, 2), (10, 2), (11, 2), (12, 2), (13, 2), (14, 2), (15, 2), (6, 1), (7, 1), (8, 1), (10, 1), (15, 1)], 16383, false);
+    kani::cover!(t.ok >= 1 && t.fault_err >= 1, "fault-free load succeeds, injected faults surface as Err");
+}
+
+// @harness
+// @prop C15
+// @tier quick
+// @timeout 600
+// @expect known:KF-C15-1
+// @fn sna::load; LoadableAsset::read_exact; Z80::set_im; ZXColor::from_bits; ZXController::write_7ffd; ZXMemory::ram_page_data_mut; Z80::pop_pc_from_stack
+// @sym all 27 header bytes and the 4 bytes at 49179 raw (no encoder), fresh per load; fault position and kind enumerated concretely (a symbolic fault makes the file position symbolic and CBMC runs out of memory)
+// @assert sna::load returns (Ok or Err) for a header whose interrupt-mode byte has both low bits set
+// @bound 48K machine, 49179-byte file, no fault
+// @assume header byte 25 & 3 == 3 (the region excluded from the c15_sna* harnesses)
+// @outside RAM page contents (whole-slice copies, sparse asset leaves them untouched); 128K port byte values other than the enumerated ones; emulating whole further frames (C01/C04 show a step cannot panic from any state under the map invariant asserted here)
+// @stub ZXController::refresh_memory_dependent_devices -> no-op; ZXScreen::process_clocks -> no-op
+// @replay solver-only
+#[kani::proof]
+#[kani::unwind(29)]
+#[kani::stub(ZXController::refresh_memory_dependent_devices, noop_refresh)]
+#[kani::stub(ZXScreen::process_clocks, noop_screen_clocks)]
+fn c15_known_sna_im3_panics() {
+    let mut head: [u8; 27] = kani::any();
+    head[25] |= 3;
+    let asset = SparseAsset::new(49179, head, [0; 4], NO_WITNESS, 0);
+    let mut e = mk_emulator(ZXMachine::Sinclair48K, CTX);
+    let _ = load(&mut e, asset);
+    kani::cover!(true, "reached");
+}
+
+// @harness
+// @prop C15
+// @tier quick
+// @timeout 600
+// @fn sna::load; LoadableAsset::read_exact; Z80::set_im; ZXColor::from_bits; ZXController::write_7ffd; ZXMemory::ram_page_data_mut; Z80::pop_pc_from_stack
+// @sym all kept bytes
+// @assert files shorter than a 48K snapshot are Err without a single read request; failing seeks are Err
+// @bound file sizes 0, 1, 26, 27, 28, 31, 60, 49178 on both machines; Err at seek 0 / seek 1 / none
+// @outside RAM page contents (whole-slice copies, sparse asset leaves them untouched); 128K port byte values other than the enumerated ones; emulating whole further frames (C01/C04 show a step cannot panic from any state under the map invariant asserted here)
+// @stub ZXController::refresh_memory_dependent_devices -> no-op; ZXScreen::process_clocks -> no-op
+// @replay solver-only
+#[kani::proof]
+#[kani::unwind(29)]
+#[kani::stub(ZXController::refresh_memory_dependent_devices, noop_refresh)]
+#[kani::stub(ZXScreen::process_clocks, noop_screen_clocks)]
+fn c15_sna_short_files_rejected() {
+    let sizes: [usize; 8] = [0, 1, 26, 27, 28, 31, 60, 49178];
+    let mut i = 0;
+    while i < 8 {
+        let mut m = 0;
+        while m < 2 {
+            let machine = if m == 0 { ZXMachine::Sinclair48K } else { ZXMachine::Sinclair128K };
+            let mut asset = SparseAsset::new(sizes[i], kani::any(), kani::any(), NO_WITNESS, 0);
+            asset.fault = Fault { at: if i % 3 == 2 { NO_FAULT } else { (i % 3) as u8 }, kind: 0, n: 0 };
+            let mut e = mk_emulator(machine, CTX);
+            let r = load(&mut e, &mut asset);
+            kani::assert(r.is_err(), "c15.sna.short_file_is_err");
+            kani::assert(asset.max_req == 0 && asset.calls <= 2, "c15.sna.short_file_no_reads");
+            m += 1;
+        }
+        i += 1;
+    }
+    kani::cover!(true, "all sizes done");
+}
+
+// ================================================================================================
+// reachability twins: the bodies above really reach their last line (final assert(false) must fail)
+// ================================================================================================
+
+// @harness
+// @prop C13
+// @tier quick
+// @timeout 600
+// @expect vacuity
+// @fn sna::save; sna::load
+// @bound reachability twin of c13_rt128_bank3_paged3
+// @stub ZXController::refresh_memory_dependent_devices -> no-op; ZXScreen::process_clocks -> no-op
+// @replay solver-only
+#[kani::proof]
+#[kani::unwind(29)]
+#[kani::stub(ZXController::refresh_memory_dependent_devices, noop_refresh)]
+#[kani::stub(ZXScreen::process_clocks, noop_screen_clocks)]
+fn c13_rt128_reach() {
+    c13_rt128_body(3, 3, 0x3FFF, 0x28, 0x15);
+    kani::assert(false, "c13.reach");
+}
+
+// @harness
+// @prop C13
+// @tier quick
+// @timeout 600
+// @expect vacuity
+// @fn sna::save; sna::load
+// @bound reachability twin of c13_rt48_pc_low_p0
+// @stub ZXController::refresh_memory_dependent_devices -> no-op; ZXScreen::process_clocks -> no-op
+// @replay solver-only
+#[kani::proof]
+#[kani::unwind(29)]
+#[kani::stub(ZXController::refresh_memory_dependent_devices, noop_refresh)]
+#[kani::stub(ZXScreen::process_clocks, noop_screen_clocks)]
+fn c13_rt48_reach() {
+    c13_rt48_body(0, 0x1AFF, SpMode::PcLo);
+    kani::assert(false, "c13.reach");
+}
+
+// @harness
+// @prop C14
+// @tier quick
+// @timeout 600
+// @expect vacuity
+// @fn sna::load
+// @bound reachability twin of c14_sna48_load_p1_last_sp_on_witness and c14_sna128_load_bank3_paged3
+// @stub ZXController::refresh_memory_dependent_devices -> no-op; ZXScreen::process_clocks -> no-op
+// @replay solver-only
+#[kani::proof]
+#[kani::unwind(29)]
+#[kani::stub(ZXController::refresh_memory_dependent_devices, noop_refresh)]
+#[kani::stub(ZXScreen::process_clocks, noop_screen_clocks)]
+fn c14_sna_load_reach() {
+    c14_sna48_body(1, 0x3FFF, Some(0xBFFF));
+    c14_sna128_body(3, 3, 1, 0x28, 0x1F);
+    kani::assert(false, "c14.reach");
+}
+
+// @harness
+// @prop C15
+// @tier quick
+// @timeout 600
+// @expect vacuity
+// @fn sna::load
+// @bound reachability twin of c15_sna48_faults_pages
+// @stub ZXController::refresh_memory_dependent_devices -> no-op; ZXScreen::process_clocks -> no-op
+// @replay solver-only
+#[kani::proof]
+#[kani::unwind(29)]
+#[kani::stub(ZXController::refresh_memory_dependent_devices, noop_refresh)]
+#[kani::stub(ZXScreen::process_clocks, noop_screen_clocks)]
+fn c15_sna_faults_reach() {
+    let _ = c15_sna_list(ZXMachine::Sinclair48K, 49179, None, &[(3, 0), (4, 1)], 1, false);
+    kani::assert(false, "c15.reach");
+}
